@@ -17,7 +17,8 @@
   binary_auprc / binary_binned_auprc / auc, which document and accept the one-row layout; `Valid_tasks1` — exactly
   (n_sample,) — for the functions whose check says "`input` is expected to be one-dimensional").
 
-  Proofs are uniform (`split_shape` on the rank of every tensor + `simp` + `grind`), so a refactoring of a
+  Proofs are uniform (`split_shape` on the rank of every tensor, then `shape_auto` = `simp` with the shared
+  definitions + `grind`; TE/Lemmas/ShapeAccepts.lean), so a refactoring of a
   Python helper that regenerates a logically equivalent Lean term keeps them green.
 -/
 import TE.Gen.Shapes
@@ -34,18 +35,18 @@ open TE TE.Shape TE.ShapeSpec
 theorem C18_accepts_binary_accuracy (i t : Shp) :
     Gen.check_binary_accuracy i t = .ok ↔ Accepts_1d i t = true := by
   unfold Gen.check_binary_accuracy Accepts_1d
-  split_shape i <;> split_shape t <;> simp [Accepts_tasks_strict, Valid_retrieval_precision, Accepts_multiclass, Accepts_tasks_nd, Accepts_tasks_2d, unsqueeze0, ndim, size, Res.ite_ok, weightOk, numel_eq_zero] <;> grind
+  split_shape i <;> split_shape t <;> shape_auto
 
 theorem C18_complete_binary_accuracy (i t : Shp) :
     Valid_binary_accuracy i t = true → Accepts_1d i t = true := by
   unfold Valid_binary_accuracy Accepts_1d
-  split_shape i <;> split_shape t <;> simp [Valid_tasks1, Valid_1d, Valid_multiclass, Valid_scores, Valid_multilabel, Valid_tasks, Valid_regression, Valid_text, patterns_tasks0, liftW, Accepts_tasks_strict, Valid_retrieval_precision, Accepts_multiclass, Accepts_tasks_nd, Accepts_tasks_2d, unsqueeze0, ndim, size, Res.ite_ok, weightOk, numel_eq_zero] <;> grind
+  split_shape i <;> split_shape t <;> shape_auto
 
 /-- nothing undocumented is accepted -/
 theorem C18_gap_binary_accuracy (i t : Shp) :
     Accepts_1d i t = true → Valid_binary_accuracy i t = true := by
   unfold Valid_binary_accuracy Accepts_1d
-  split_shape i <;> split_shape t <;> simp [Valid_tasks1, Valid_1d, Valid_multiclass, Valid_scores, Valid_multilabel, Valid_tasks, Valid_regression, Valid_text, patterns_tasks0, liftW, Accepts_tasks_strict, Valid_retrieval_precision, Accepts_multiclass, Accepts_tasks_nd, Accepts_tasks_2d, unsqueeze0, ndim, size, Res.ite_ok, weightOk, numel_eq_zero] <;> grind
+  split_shape i <;> split_shape t <;> shape_auto
 
 example : Gen.check_binary_accuracy [3] [3] = .ok ∧ Valid_binary_accuracy [3] [3] = true := by decide
 
@@ -54,18 +55,18 @@ example : Gen.check_binary_accuracy [3] [3] = .ok ∧ Valid_binary_accuracy [3] 
 theorem C18_accepts_binary_precision (i t : Shp) :
     Gen.check_binary_precision i t = .ok ↔ Accepts_1d i t = true := by
   unfold Gen.check_binary_precision Accepts_1d
-  split_shape i <;> split_shape t <;> simp [Accepts_tasks_strict, Valid_retrieval_precision, Accepts_multiclass, Accepts_tasks_nd, Accepts_tasks_2d, unsqueeze0, ndim, size, Res.ite_ok, weightOk, numel_eq_zero] <;> grind
+  split_shape i <;> split_shape t <;> shape_auto
 
 theorem C18_complete_binary_precision (i t : Shp) :
     Valid_binary_precision i t = true → Accepts_1d i t = true := by
   unfold Valid_binary_precision Accepts_1d
-  split_shape i <;> split_shape t <;> simp [Valid_tasks1, Valid_1d, Valid_multiclass, Valid_scores, Valid_multilabel, Valid_tasks, Valid_regression, Valid_text, patterns_tasks0, liftW, Accepts_tasks_strict, Valid_retrieval_precision, Accepts_multiclass, Accepts_tasks_nd, Accepts_tasks_2d, unsqueeze0, ndim, size, Res.ite_ok, weightOk, numel_eq_zero] <;> grind
+  split_shape i <;> split_shape t <;> shape_auto
 
 /-- nothing undocumented is accepted -/
 theorem C18_gap_binary_precision (i t : Shp) :
     Accepts_1d i t = true → Valid_binary_precision i t = true := by
   unfold Valid_binary_precision Accepts_1d
-  split_shape i <;> split_shape t <;> simp [Valid_tasks1, Valid_1d, Valid_multiclass, Valid_scores, Valid_multilabel, Valid_tasks, Valid_regression, Valid_text, patterns_tasks0, liftW, Accepts_tasks_strict, Valid_retrieval_precision, Accepts_multiclass, Accepts_tasks_nd, Accepts_tasks_2d, unsqueeze0, ndim, size, Res.ite_ok, weightOk, numel_eq_zero] <;> grind
+  split_shape i <;> split_shape t <;> shape_auto
 
 example : Gen.check_binary_precision [3] [3] = .ok ∧ Valid_binary_precision [3] [3] = true := by decide
 
@@ -74,18 +75,18 @@ example : Gen.check_binary_precision [3] [3] = .ok ∧ Valid_binary_precision [3
 theorem C18_accepts_binary_recall (i t : Shp) :
     Gen.check_binary_recall i t = .ok ↔ Accepts_1d i t = true := by
   unfold Gen.check_binary_recall Accepts_1d
-  split_shape i <;> split_shape t <;> simp [Accepts_tasks_strict, Valid_retrieval_precision, Accepts_multiclass, Accepts_tasks_nd, Accepts_tasks_2d, unsqueeze0, ndim, size, Res.ite_ok, weightOk, numel_eq_zero] <;> grind
+  split_shape i <;> split_shape t <;> shape_auto
 
 theorem C18_complete_binary_recall (i t : Shp) :
     Valid_binary_recall i t = true → Accepts_1d i t = true := by
   unfold Valid_binary_recall Accepts_1d
-  split_shape i <;> split_shape t <;> simp [Valid_tasks1, Valid_1d, Valid_multiclass, Valid_scores, Valid_multilabel, Valid_tasks, Valid_regression, Valid_text, patterns_tasks0, liftW, Accepts_tasks_strict, Valid_retrieval_precision, Accepts_multiclass, Accepts_tasks_nd, Accepts_tasks_2d, unsqueeze0, ndim, size, Res.ite_ok, weightOk, numel_eq_zero] <;> grind
+  split_shape i <;> split_shape t <;> shape_auto
 
 /-- nothing undocumented is accepted -/
 theorem C18_gap_binary_recall (i t : Shp) :
     Accepts_1d i t = true → Valid_binary_recall i t = true := by
   unfold Valid_binary_recall Accepts_1d
-  split_shape i <;> split_shape t <;> simp [Valid_tasks1, Valid_1d, Valid_multiclass, Valid_scores, Valid_multilabel, Valid_tasks, Valid_regression, Valid_text, patterns_tasks0, liftW, Accepts_tasks_strict, Valid_retrieval_precision, Accepts_multiclass, Accepts_tasks_nd, Accepts_tasks_2d, unsqueeze0, ndim, size, Res.ite_ok, weightOk, numel_eq_zero] <;> grind
+  split_shape i <;> split_shape t <;> shape_auto
 
 example : Gen.check_binary_recall [3] [3] = .ok ∧ Valid_binary_recall [3] [3] = true := by decide
 
@@ -94,18 +95,18 @@ example : Gen.check_binary_recall [3] [3] = .ok ∧ Valid_binary_recall [3] [3] 
 theorem C18_accepts_binary_f1_score (i t : Shp) :
     Gen.check_binary_f1_score i t = .ok ↔ Accepts_1d i t = true := by
   unfold Gen.check_binary_f1_score Accepts_1d
-  split_shape i <;> split_shape t <;> simp [Accepts_tasks_strict, Valid_retrieval_precision, Accepts_multiclass, Accepts_tasks_nd, Accepts_tasks_2d, unsqueeze0, ndim, size, Res.ite_ok, weightOk, numel_eq_zero] <;> grind
+  split_shape i <;> split_shape t <;> shape_auto
 
 theorem C18_complete_binary_f1_score (i t : Shp) :
     Valid_binary_f1_score i t = true → Accepts_1d i t = true := by
   unfold Valid_binary_f1_score Accepts_1d
-  split_shape i <;> split_shape t <;> simp [Valid_tasks1, Valid_1d, Valid_multiclass, Valid_scores, Valid_multilabel, Valid_tasks, Valid_regression, Valid_text, patterns_tasks0, liftW, Accepts_tasks_strict, Valid_retrieval_precision, Accepts_multiclass, Accepts_tasks_nd, Accepts_tasks_2d, unsqueeze0, ndim, size, Res.ite_ok, weightOk, numel_eq_zero] <;> grind
+  split_shape i <;> split_shape t <;> shape_auto
 
 /-- nothing undocumented is accepted -/
 theorem C18_gap_binary_f1_score (i t : Shp) :
     Accepts_1d i t = true → Valid_binary_f1_score i t = true := by
   unfold Valid_binary_f1_score Accepts_1d
-  split_shape i <;> split_shape t <;> simp [Valid_tasks1, Valid_1d, Valid_multiclass, Valid_scores, Valid_multilabel, Valid_tasks, Valid_regression, Valid_text, patterns_tasks0, liftW, Accepts_tasks_strict, Valid_retrieval_precision, Accepts_multiclass, Accepts_tasks_nd, Accepts_tasks_2d, unsqueeze0, ndim, size, Res.ite_ok, weightOk, numel_eq_zero] <;> grind
+  split_shape i <;> split_shape t <;> shape_auto
 
 example : Gen.check_binary_f1_score [3] [3] = .ok ∧ Valid_binary_f1_score [3] [3] = true := by decide
 
@@ -114,18 +115,18 @@ example : Gen.check_binary_f1_score [3] [3] = .ok ∧ Valid_binary_f1_score [3] 
 theorem C18_accepts_binary_precision_recall_curve (i t : Shp) :
     Gen.check_binary_precision_recall_curve i t = .ok ↔ Accepts_1d i t = true := by
   unfold Gen.check_binary_precision_recall_curve Accepts_1d
-  split_shape i <;> split_shape t <;> simp [Accepts_tasks_strict, Valid_retrieval_precision, Accepts_multiclass, Accepts_tasks_nd, Accepts_tasks_2d, unsqueeze0, ndim, size, Res.ite_ok, weightOk, numel_eq_zero] <;> grind
+  split_shape i <;> split_shape t <;> shape_auto
 
 theorem C18_complete_binary_precision_recall_curve (i t : Shp) :
     Valid_binary_precision_recall_curve i t = true → Accepts_1d i t = true := by
   unfold Valid_binary_precision_recall_curve Accepts_1d
-  split_shape i <;> split_shape t <;> simp [Valid_tasks1, Valid_1d, Valid_multiclass, Valid_scores, Valid_multilabel, Valid_tasks, Valid_regression, Valid_text, patterns_tasks0, liftW, Accepts_tasks_strict, Valid_retrieval_precision, Accepts_multiclass, Accepts_tasks_nd, Accepts_tasks_2d, unsqueeze0, ndim, size, Res.ite_ok, weightOk, numel_eq_zero] <;> grind
+  split_shape i <;> split_shape t <;> shape_auto
 
 /-- nothing undocumented is accepted -/
 theorem C18_gap_binary_precision_recall_curve (i t : Shp) :
     Accepts_1d i t = true → Valid_binary_precision_recall_curve i t = true := by
   unfold Valid_binary_precision_recall_curve Accepts_1d
-  split_shape i <;> split_shape t <;> simp [Valid_tasks1, Valid_1d, Valid_multiclass, Valid_scores, Valid_multilabel, Valid_tasks, Valid_regression, Valid_text, patterns_tasks0, liftW, Accepts_tasks_strict, Valid_retrieval_precision, Accepts_multiclass, Accepts_tasks_nd, Accepts_tasks_2d, unsqueeze0, ndim, size, Res.ite_ok, weightOk, numel_eq_zero] <;> grind
+  split_shape i <;> split_shape t <;> shape_auto
 
 example : Gen.check_binary_precision_recall_curve [3] [3] = .ok ∧ Valid_binary_precision_recall_curve [3] [3] = true := by decide
 
@@ -134,18 +135,18 @@ example : Gen.check_binary_precision_recall_curve [3] [3] = .ok ∧ Valid_binary
 theorem C18_accepts_binary_confusion_matrix (i t : Shp) :
     Gen.check_binary_confusion_matrix i t false = .ok ↔ Accepts_1d i t = true := by
   unfold Gen.check_binary_confusion_matrix Accepts_1d
-  split_shape i <;> split_shape t <;> simp [Accepts_tasks_strict, Valid_retrieval_precision, Accepts_multiclass, Accepts_tasks_nd, Accepts_tasks_2d, unsqueeze0, ndim, size, Res.ite_ok, weightOk, numel_eq_zero] <;> grind
+  split_shape i <;> split_shape t <;> shape_auto
 
 theorem C18_complete_binary_confusion_matrix (i t : Shp) :
     Valid_binary_confusion_matrix i t = true → Accepts_1d i t = true := by
   unfold Valid_binary_confusion_matrix Accepts_1d
-  split_shape i <;> split_shape t <;> simp [Valid_tasks1, Valid_1d, Valid_multiclass, Valid_scores, Valid_multilabel, Valid_tasks, Valid_regression, Valid_text, patterns_tasks0, liftW, Accepts_tasks_strict, Valid_retrieval_precision, Accepts_multiclass, Accepts_tasks_nd, Accepts_tasks_2d, unsqueeze0, ndim, size, Res.ite_ok, weightOk, numel_eq_zero] <;> grind
+  split_shape i <;> split_shape t <;> shape_auto
 
 /-- nothing undocumented is accepted -/
 theorem C18_gap_binary_confusion_matrix (i t : Shp) :
     Accepts_1d i t = true → Valid_binary_confusion_matrix i t = true := by
   unfold Valid_binary_confusion_matrix Accepts_1d
-  split_shape i <;> split_shape t <;> simp [Valid_tasks1, Valid_1d, Valid_multiclass, Valid_scores, Valid_multilabel, Valid_tasks, Valid_regression, Valid_text, patterns_tasks0, liftW, Accepts_tasks_strict, Valid_retrieval_precision, Accepts_multiclass, Accepts_tasks_nd, Accepts_tasks_2d, unsqueeze0, ndim, size, Res.ite_ok, weightOk, numel_eq_zero] <;> grind
+  split_shape i <;> split_shape t <;> shape_auto
 
 example : Gen.check_binary_confusion_matrix [3] [3] false = .ok ∧ Valid_binary_confusion_matrix [3] [3] = true := by decide
 
@@ -154,18 +155,18 @@ example : Gen.check_binary_confusion_matrix [3] [3] false = .ok ∧ Valid_binary
 theorem C18_accepts_binary_recall_at_fixed_precision (i t : Shp) :
     Gen.check_binary_recall_at_fixed_precision i t false = .ok ↔ Accepts_1d i t = true := by
   unfold Gen.check_binary_recall_at_fixed_precision Accepts_1d Gen.check_binary_precision_recall_curve
-  split_shape i <;> split_shape t <;> simp [Accepts_tasks_strict, Valid_retrieval_precision, Accepts_multiclass, Accepts_tasks_nd, Accepts_tasks_2d, unsqueeze0, ndim, size, Res.ite_ok, weightOk, numel_eq_zero] <;> grind
+  split_shape i <;> split_shape t <;> shape_auto
 
 theorem C18_complete_binary_recall_at_fixed_precision (i t : Shp) :
     Valid_binary_recall_at_fixed_precision i t = true → Accepts_1d i t = true := by
   unfold Valid_binary_recall_at_fixed_precision Accepts_1d
-  split_shape i <;> split_shape t <;> simp [Valid_tasks1, Valid_1d, Valid_multiclass, Valid_scores, Valid_multilabel, Valid_tasks, Valid_regression, Valid_text, patterns_tasks0, liftW, Accepts_tasks_strict, Valid_retrieval_precision, Accepts_multiclass, Accepts_tasks_nd, Accepts_tasks_2d, unsqueeze0, ndim, size, Res.ite_ok, weightOk, numel_eq_zero] <;> grind
+  split_shape i <;> split_shape t <;> shape_auto
 
 /-- nothing undocumented is accepted -/
 theorem C18_gap_binary_recall_at_fixed_precision (i t : Shp) :
     Accepts_1d i t = true → Valid_binary_recall_at_fixed_precision i t = true := by
   unfold Valid_binary_recall_at_fixed_precision Accepts_1d
-  split_shape i <;> split_shape t <;> simp [Valid_tasks1, Valid_1d, Valid_multiclass, Valid_scores, Valid_multilabel, Valid_tasks, Valid_regression, Valid_text, patterns_tasks0, liftW, Accepts_tasks_strict, Valid_retrieval_precision, Accepts_multiclass, Accepts_tasks_nd, Accepts_tasks_2d, unsqueeze0, ndim, size, Res.ite_ok, weightOk, numel_eq_zero] <;> grind
+  split_shape i <;> split_shape t <;> shape_auto
 
 example : Gen.check_binary_recall_at_fixed_precision [3] [3] false = .ok ∧ Valid_binary_recall_at_fixed_precision [3] [3] = true := by decide
 
@@ -174,18 +175,18 @@ example : Gen.check_binary_recall_at_fixed_precision [3] [3] false = .ok ∧ Val
 theorem C18_accepts_accuracy (i t : Shp) (nc : Option Int) (k : Int) :
     Gen.check_accuracy i t nc k = .ok ↔ Accepts_accuracy i t nc k = true := by
   unfold Gen.check_accuracy Accepts_accuracy
-  split_shape i <;> split_shape t <;> cases nc <;> simp [Accepts_tasks_strict, Valid_retrieval_precision, Accepts_multiclass, Accepts_tasks_nd, Accepts_tasks_2d, unsqueeze0, ndim, size, Res.ite_ok, weightOk, numel_eq_zero] <;> grind
+  split_shape i <;> split_shape t <;> cases nc <;> shape_auto
 
 theorem C18_complete_accuracy (i t : Shp) (nc : Option Int) (k : Int) :
     Valid_accuracy i t nc k = true → Accepts_accuracy i t nc k = true := by
   unfold Valid_accuracy Accepts_accuracy
-  split_shape i <;> split_shape t <;> cases nc <;> simp [Valid_tasks1, Valid_1d, Valid_multiclass, Valid_scores, Valid_multilabel, Valid_tasks, Valid_regression, Valid_text, patterns_tasks0, liftW, Accepts_tasks_strict, Valid_retrieval_precision, Accepts_multiclass, Accepts_tasks_nd, Accepts_tasks_2d, unsqueeze0, ndim, size, Res.ite_ok, weightOk, numel_eq_zero] <;> grind
+  split_shape i <;> split_shape t <;> cases nc <;> shape_auto
 
 /-- nothing undocumented is accepted -/
 theorem C18_gap_accuracy (i t : Shp) (nc : Option Int) (k : Int) :
     Accepts_accuracy i t nc k = true → Valid_accuracy i t nc k = true := by
   unfold Valid_accuracy Accepts_accuracy
-  split_shape i <;> split_shape t <;> cases nc <;> simp [Valid_tasks1, Valid_1d, Valid_multiclass, Valid_scores, Valid_multilabel, Valid_tasks, Valid_regression, Valid_text, patterns_tasks0, liftW, Accepts_tasks_strict, Valid_retrieval_precision, Accepts_multiclass, Accepts_tasks_nd, Accepts_tasks_2d, unsqueeze0, ndim, size, Res.ite_ok, weightOk, numel_eq_zero] <;> grind
+  split_shape i <;> split_shape t <;> cases nc <;> shape_auto
 
 example : Gen.check_accuracy [3, 4] [3] (some 4) 2 = .ok ∧ Valid_accuracy [3, 4] [3] (some 4) 2 = true := by decide
 
@@ -194,18 +195,18 @@ example : Gen.check_accuracy [3, 4] [3] (some 4) 2 = .ok ∧ Valid_accuracy [3, 
 theorem C18_accepts_precision (i t : Shp) (nc : Option Int) :
     Gen.check_precision i t nc = .ok ↔ Accepts_multiclass i t nc = true := by
   unfold Gen.check_precision Accepts_multiclass
-  split_shape i <;> split_shape t <;> cases nc <;> simp [Accepts_tasks_strict, Valid_retrieval_precision, Accepts_multiclass, Accepts_tasks_nd, Accepts_tasks_2d, unsqueeze0, ndim, size, Res.ite_ok, weightOk, numel_eq_zero] <;> grind
+  split_shape i <;> split_shape t <;> cases nc <;> shape_auto
 
 theorem C18_complete_precision (i t : Shp) (nc : Option Int) :
     Valid_precision i t nc = true → Accepts_multiclass i t nc = true := by
   unfold Valid_precision Accepts_multiclass
-  split_shape i <;> split_shape t <;> cases nc <;> simp [Valid_tasks1, Valid_1d, Valid_multiclass, Valid_scores, Valid_multilabel, Valid_tasks, Valid_regression, Valid_text, patterns_tasks0, liftW, Accepts_tasks_strict, Valid_retrieval_precision, Accepts_multiclass, Accepts_tasks_nd, Accepts_tasks_2d, unsqueeze0, ndim, size, Res.ite_ok, weightOk, numel_eq_zero] <;> grind
+  split_shape i <;> split_shape t <;> cases nc <;> shape_auto
 
 /-- nothing undocumented is accepted -/
 theorem C18_gap_precision (i t : Shp) (nc : Option Int) :
     Accepts_multiclass i t nc = true → Valid_precision i t nc = true := by
   unfold Valid_precision Accepts_multiclass
-  split_shape i <;> split_shape t <;> cases nc <;> simp [Valid_tasks1, Valid_1d, Valid_multiclass, Valid_scores, Valid_multilabel, Valid_tasks, Valid_regression, Valid_text, patterns_tasks0, liftW, Accepts_tasks_strict, Valid_retrieval_precision, Accepts_multiclass, Accepts_tasks_nd, Accepts_tasks_2d, unsqueeze0, ndim, size, Res.ite_ok, weightOk, numel_eq_zero] <;> grind
+  split_shape i <;> split_shape t <;> cases nc <;> shape_auto
 
 example : Gen.check_precision [3, 4] [3] (some 4) = .ok ∧ Valid_precision [3, 4] [3] (some 4) = true := by decide
 
@@ -214,18 +215,18 @@ example : Gen.check_precision [3, 4] [3] (some 4) = .ok ∧ Valid_precision [3, 
 theorem C18_accepts_recall (i t : Shp) (nc : Option Int) :
     Gen.check_recall i t nc = .ok ↔ Accepts_multiclass i t nc = true := by
   unfold Gen.check_recall Accepts_multiclass
-  split_shape i <;> split_shape t <;> cases nc <;> simp [Accepts_tasks_strict, Valid_retrieval_precision, Accepts_multiclass, Accepts_tasks_nd, Accepts_tasks_2d, unsqueeze0, ndim, size, Res.ite_ok, weightOk, numel_eq_zero] <;> grind
+  split_shape i <;> split_shape t <;> cases nc <;> shape_auto
 
 theorem C18_complete_recall (i t : Shp) (nc : Option Int) :
     Valid_recall i t nc = true → Accepts_multiclass i t nc = true := by
   unfold Valid_recall Accepts_multiclass
-  split_shape i <;> split_shape t <;> cases nc <;> simp [Valid_tasks1, Valid_1d, Valid_multiclass, Valid_scores, Valid_multilabel, Valid_tasks, Valid_regression, Valid_text, patterns_tasks0, liftW, Accepts_tasks_strict, Valid_retrieval_precision, Accepts_multiclass, Accepts_tasks_nd, Accepts_tasks_2d, unsqueeze0, ndim, size, Res.ite_ok, weightOk, numel_eq_zero] <;> grind
+  split_shape i <;> split_shape t <;> cases nc <;> shape_auto
 
 /-- nothing undocumented is accepted -/
 theorem C18_gap_recall (i t : Shp) (nc : Option Int) :
     Accepts_multiclass i t nc = true → Valid_recall i t nc = true := by
   unfold Valid_recall Accepts_multiclass
-  split_shape i <;> split_shape t <;> cases nc <;> simp [Valid_tasks1, Valid_1d, Valid_multiclass, Valid_scores, Valid_multilabel, Valid_tasks, Valid_regression, Valid_text, patterns_tasks0, liftW, Accepts_tasks_strict, Valid_retrieval_precision, Accepts_multiclass, Accepts_tasks_nd, Accepts_tasks_2d, unsqueeze0, ndim, size, Res.ite_ok, weightOk, numel_eq_zero] <;> grind
+  split_shape i <;> split_shape t <;> cases nc <;> shape_auto
 
 example : Gen.check_recall [3, 4] [3] (some 4) = .ok ∧ Valid_recall [3, 4] [3] (some 4) = true := by decide
 
@@ -234,18 +235,18 @@ example : Gen.check_recall [3, 4] [3] (some 4) = .ok ∧ Valid_recall [3, 4] [3]
 theorem C18_accepts_f1_score (i t : Shp) (nc : Option Int) :
     Gen.check_f1_score i t nc = .ok ↔ Accepts_multiclass i t nc = true := by
   unfold Gen.check_f1_score Accepts_multiclass
-  split_shape i <;> split_shape t <;> cases nc <;> simp [Accepts_tasks_strict, Valid_retrieval_precision, Accepts_multiclass, Accepts_tasks_nd, Accepts_tasks_2d, unsqueeze0, ndim, size, Res.ite_ok, weightOk, numel_eq_zero] <;> grind
+  split_shape i <;> split_shape t <;> cases nc <;> shape_auto
 
 theorem C18_complete_f1_score (i t : Shp) (nc : Option Int) :
     Valid_f1_score i t nc = true → Accepts_multiclass i t nc = true := by
   unfold Valid_f1_score Accepts_multiclass
-  split_shape i <;> split_shape t <;> cases nc <;> simp [Valid_tasks1, Valid_1d, Valid_multiclass, Valid_scores, Valid_multilabel, Valid_tasks, Valid_regression, Valid_text, patterns_tasks0, liftW, Accepts_tasks_strict, Valid_retrieval_precision, Accepts_multiclass, Accepts_tasks_nd, Accepts_tasks_2d, unsqueeze0, ndim, size, Res.ite_ok, weightOk, numel_eq_zero] <;> grind
+  split_shape i <;> split_shape t <;> cases nc <;> shape_auto
 
 /-- nothing undocumented is accepted -/
 theorem C18_gap_f1_score (i t : Shp) (nc : Option Int) :
     Accepts_multiclass i t nc = true → Valid_f1_score i t nc = true := by
   unfold Valid_f1_score Accepts_multiclass
-  split_shape i <;> split_shape t <;> cases nc <;> simp [Valid_tasks1, Valid_1d, Valid_multiclass, Valid_scores, Valid_multilabel, Valid_tasks, Valid_regression, Valid_text, patterns_tasks0, liftW, Accepts_tasks_strict, Valid_retrieval_precision, Accepts_multiclass, Accepts_tasks_nd, Accepts_tasks_2d, unsqueeze0, ndim, size, Res.ite_ok, weightOk, numel_eq_zero] <;> grind
+  split_shape i <;> split_shape t <;> cases nc <;> shape_auto
 
 example : Gen.check_f1_score [3, 4] [3] (some 4) = .ok ∧ Valid_f1_score [3, 4] [3] (some 4) = true := by decide
 
@@ -254,18 +255,18 @@ example : Gen.check_f1_score [3, 4] [3] (some 4) = .ok ∧ Valid_f1_score [3, 4]
 theorem C18_accepts_confusion_matrix (i t : Shp) (nc : Option Int) :
     Gen.check_confusion_matrix i t nc false false false false = .ok ↔ Accepts_confusion_matrix i t nc = true := by
   unfold Gen.check_confusion_matrix Accepts_confusion_matrix
-  split_shape i <;> split_shape t <;> cases nc <;> simp [Accepts_tasks_strict, Valid_retrieval_precision, Accepts_multiclass, Accepts_tasks_nd, Accepts_tasks_2d, unsqueeze0, ndim, size, Res.ite_ok, weightOk, numel_eq_zero] <;> grind
+  split_shape i <;> split_shape t <;> cases nc <;> shape_auto
 
 theorem C18_complete_confusion_matrix (i t : Shp) (nc : Option Int) :
     Valid_confusion_matrix i t nc = true → Accepts_confusion_matrix i t nc = true := by
   unfold Valid_confusion_matrix Accepts_confusion_matrix
-  split_shape i <;> split_shape t <;> cases nc <;> simp [Valid_tasks1, Valid_1d, Valid_multiclass, Valid_scores, Valid_multilabel, Valid_tasks, Valid_regression, Valid_text, patterns_tasks0, liftW, Accepts_tasks_strict, Valid_retrieval_precision, Accepts_multiclass, Accepts_tasks_nd, Accepts_tasks_2d, unsqueeze0, ndim, size, Res.ite_ok, weightOk, numel_eq_zero] <;> grind
+  split_shape i <;> split_shape t <;> cases nc <;> shape_auto
 
 /-- nothing undocumented is accepted -/
 theorem C18_gap_confusion_matrix (i t : Shp) (nc : Option Int) :
     Accepts_confusion_matrix i t nc = true → Valid_confusion_matrix i t nc = true := by
   unfold Valid_confusion_matrix Accepts_confusion_matrix
-  split_shape i <;> split_shape t <;> cases nc <;> simp [Valid_tasks1, Valid_1d, Valid_multiclass, Valid_scores, Valid_multilabel, Valid_tasks, Valid_regression, Valid_text, patterns_tasks0, liftW, Accepts_tasks_strict, Valid_retrieval_precision, Accepts_multiclass, Accepts_tasks_nd, Accepts_tasks_2d, unsqueeze0, ndim, size, Res.ite_ok, weightOk, numel_eq_zero] <;> grind
+  split_shape i <;> split_shape t <;> cases nc <;> shape_auto
 
 example : Gen.check_confusion_matrix [3, 4] [3] (some 4) false false false false = .ok ∧ Valid_confusion_matrix [3, 4] [3] (some 4) = true := by decide
 
@@ -274,18 +275,18 @@ example : Gen.check_confusion_matrix [3, 4] [3] (some 4) false false false false
 theorem C18_accepts_multiclass_auroc (i t : Shp) (nc : Int) :
     Gen.check_multiclass_auroc i t nc = .ok ↔ Accepts_scores i t (some nc) = true := by
   unfold Gen.check_multiclass_auroc Accepts_scores
-  split_shape i <;> split_shape t <;> simp [Accepts_tasks_strict, Valid_retrieval_precision, Accepts_multiclass, Accepts_tasks_nd, Accepts_tasks_2d, unsqueeze0, ndim, size, Res.ite_ok, weightOk, numel_eq_zero] <;> grind
+  split_shape i <;> split_shape t <;> shape_auto
 
 theorem C18_complete_multiclass_auroc (i t : Shp) (nc : Int) :
     Valid_multiclass_auroc i t nc = true → Accepts_scores i t (some nc) = true := by
   unfold Valid_multiclass_auroc Accepts_scores
-  split_shape i <;> split_shape t <;> simp [Valid_tasks1, Valid_1d, Valid_multiclass, Valid_scores, Valid_multilabel, Valid_tasks, Valid_regression, Valid_text, patterns_tasks0, liftW, Accepts_tasks_strict, Valid_retrieval_precision, Accepts_multiclass, Accepts_tasks_nd, Accepts_tasks_2d, unsqueeze0, ndim, size, Res.ite_ok, weightOk, numel_eq_zero] <;> grind
+  split_shape i <;> split_shape t <;> shape_auto
 
 /-- nothing undocumented is accepted -/
 theorem C18_gap_multiclass_auroc (i t : Shp) (nc : Int) :
     Accepts_scores i t (some nc) = true → Valid_multiclass_auroc i t nc = true := by
   unfold Valid_multiclass_auroc Accepts_scores
-  split_shape i <;> split_shape t <;> simp [Valid_tasks1, Valid_1d, Valid_multiclass, Valid_scores, Valid_multilabel, Valid_tasks, Valid_regression, Valid_text, patterns_tasks0, liftW, Accepts_tasks_strict, Valid_retrieval_precision, Accepts_multiclass, Accepts_tasks_nd, Accepts_tasks_2d, unsqueeze0, ndim, size, Res.ite_ok, weightOk, numel_eq_zero] <;> grind
+  split_shape i <;> split_shape t <;> shape_auto
 
 example : Gen.check_multiclass_auroc [3, 4] [3] 4 = .ok ∧ Valid_multiclass_auroc [3, 4] [3] 4 = true := by decide
 
@@ -294,18 +295,18 @@ example : Gen.check_multiclass_auroc [3, 4] [3] 4 = .ok ∧ Valid_multiclass_aur
 theorem C18_accepts_multiclass_auprc (i t : Shp) (nc : Int) :
     Gen.check_multiclass_auprc i t nc = .ok ↔ Accepts_scores i t (some nc) = true := by
   unfold Gen.check_multiclass_auprc Accepts_scores
-  split_shape i <;> split_shape t <;> simp [Accepts_tasks_strict, Valid_retrieval_precision, Accepts_multiclass, Accepts_tasks_nd, Accepts_tasks_2d, unsqueeze0, ndim, size, Res.ite_ok, weightOk, numel_eq_zero] <;> grind
+  split_shape i <;> split_shape t <;> shape_auto
 
 theorem C18_complete_multiclass_auprc (i t : Shp) (nc : Int) :
     Valid_multiclass_auprc i t nc = true → Accepts_scores i t (some nc) = true := by
   unfold Valid_multiclass_auprc Accepts_scores
-  split_shape i <;> split_shape t <;> simp [Valid_tasks1, Valid_1d, Valid_multiclass, Valid_scores, Valid_multilabel, Valid_tasks, Valid_regression, Valid_text, patterns_tasks0, liftW, Accepts_tasks_strict, Valid_retrieval_precision, Accepts_multiclass, Accepts_tasks_nd, Accepts_tasks_2d, unsqueeze0, ndim, size, Res.ite_ok, weightOk, numel_eq_zero] <;> grind
+  split_shape i <;> split_shape t <;> shape_auto
 
 /-- nothing undocumented is accepted -/
 theorem C18_gap_multiclass_auprc (i t : Shp) (nc : Int) :
     Accepts_scores i t (some nc) = true → Valid_multiclass_auprc i t nc = true := by
   unfold Valid_multiclass_auprc Accepts_scores
-  split_shape i <;> split_shape t <;> simp [Valid_tasks1, Valid_1d, Valid_multiclass, Valid_scores, Valid_multilabel, Valid_tasks, Valid_regression, Valid_text, patterns_tasks0, liftW, Accepts_tasks_strict, Valid_retrieval_precision, Accepts_multiclass, Accepts_tasks_nd, Accepts_tasks_2d, unsqueeze0, ndim, size, Res.ite_ok, weightOk, numel_eq_zero] <;> grind
+  split_shape i <;> split_shape t <;> shape_auto
 
 example : Gen.check_multiclass_auprc [3, 4] [3] 4 = .ok ∧ Valid_multiclass_auprc [3, 4] [3] 4 = true := by decide
 
@@ -314,18 +315,18 @@ example : Gen.check_multiclass_auprc [3, 4] [3] 4 = .ok ∧ Valid_multiclass_aup
 theorem C18_accepts_multiclass_binned_auroc (i t : Shp) (nc : Int) :
     Gen.check_multiclass_binned_auroc i t nc = .ok ↔ Accepts_scores i t (some nc) = true := by
   unfold Gen.check_multiclass_binned_auroc Accepts_scores
-  split_shape i <;> split_shape t <;> simp [Accepts_tasks_strict, Valid_retrieval_precision, Accepts_multiclass, Accepts_tasks_nd, Accepts_tasks_2d, unsqueeze0, ndim, size, Res.ite_ok, weightOk, numel_eq_zero] <;> grind
+  split_shape i <;> split_shape t <;> shape_auto
 
 theorem C18_complete_multiclass_binned_auroc (i t : Shp) (nc : Int) :
     Valid_multiclass_binned_auroc i t nc = true → Accepts_scores i t (some nc) = true := by
   unfold Valid_multiclass_binned_auroc Accepts_scores
-  split_shape i <;> split_shape t <;> simp [Valid_tasks1, Valid_1d, Valid_multiclass, Valid_scores, Valid_multilabel, Valid_tasks, Valid_regression, Valid_text, patterns_tasks0, liftW, Accepts_tasks_strict, Valid_retrieval_precision, Accepts_multiclass, Accepts_tasks_nd, Accepts_tasks_2d, unsqueeze0, ndim, size, Res.ite_ok, weightOk, numel_eq_zero] <;> grind
+  split_shape i <;> split_shape t <;> shape_auto
 
 /-- nothing undocumented is accepted -/
 theorem C18_gap_multiclass_binned_auroc (i t : Shp) (nc : Int) :
     Accepts_scores i t (some nc) = true → Valid_multiclass_binned_auroc i t nc = true := by
   unfold Valid_multiclass_binned_auroc Accepts_scores
-  split_shape i <;> split_shape t <;> simp [Valid_tasks1, Valid_1d, Valid_multiclass, Valid_scores, Valid_multilabel, Valid_tasks, Valid_regression, Valid_text, patterns_tasks0, liftW, Accepts_tasks_strict, Valid_retrieval_precision, Accepts_multiclass, Accepts_tasks_nd, Accepts_tasks_2d, unsqueeze0, ndim, size, Res.ite_ok, weightOk, numel_eq_zero] <;> grind
+  split_shape i <;> split_shape t <;> shape_auto
 
 example : Gen.check_multiclass_binned_auroc [3, 4] [3] 4 = .ok ∧ Valid_multiclass_binned_auroc [3, 4] [3] 4 = true := by decide
 
@@ -334,18 +335,18 @@ example : Gen.check_multiclass_binned_auroc [3, 4] [3] 4 = .ok ∧ Valid_multicl
 theorem C18_accepts_multiclass_binned_auprc (i t : Shp) (nc : Int) :
     Gen.check_multiclass_binned_auprc i t nc = .ok ↔ Accepts_scores i t (some nc) = true := by
   unfold Gen.check_multiclass_binned_auprc Accepts_scores
-  split_shape i <;> split_shape t <;> simp [Accepts_tasks_strict, Valid_retrieval_precision, Accepts_multiclass, Accepts_tasks_nd, Accepts_tasks_2d, unsqueeze0, ndim, size, Res.ite_ok, weightOk, numel_eq_zero] <;> grind
+  split_shape i <;> split_shape t <;> shape_auto
 
 theorem C18_complete_multiclass_binned_auprc (i t : Shp) (nc : Int) :
     Valid_multiclass_binned_auprc i t nc = true → Accepts_scores i t (some nc) = true := by
   unfold Valid_multiclass_binned_auprc Accepts_scores
-  split_shape i <;> split_shape t <;> simp [Valid_tasks1, Valid_1d, Valid_multiclass, Valid_scores, Valid_multilabel, Valid_tasks, Valid_regression, Valid_text, patterns_tasks0, liftW, Accepts_tasks_strict, Valid_retrieval_precision, Accepts_multiclass, Accepts_tasks_nd, Accepts_tasks_2d, unsqueeze0, ndim, size, Res.ite_ok, weightOk, numel_eq_zero] <;> grind
+  split_shape i <;> split_shape t <;> shape_auto
 
 /-- nothing undocumented is accepted -/
 theorem C18_gap_multiclass_binned_auprc (i t : Shp) (nc : Int) :
     Accepts_scores i t (some nc) = true → Valid_multiclass_binned_auprc i t nc = true := by
   unfold Valid_multiclass_binned_auprc Accepts_scores
-  split_shape i <;> split_shape t <;> simp [Valid_tasks1, Valid_1d, Valid_multiclass, Valid_scores, Valid_multilabel, Valid_tasks, Valid_regression, Valid_text, patterns_tasks0, liftW, Accepts_tasks_strict, Valid_retrieval_precision, Accepts_multiclass, Accepts_tasks_nd, Accepts_tasks_2d, unsqueeze0, ndim, size, Res.ite_ok, weightOk, numel_eq_zero] <;> grind
+  split_shape i <;> split_shape t <;> shape_auto
 
 example : Gen.check_multiclass_binned_auprc [3, 4] [3] 4 = .ok ∧ Valid_multiclass_binned_auprc [3, 4] [3] 4 = true := by decide
 
@@ -354,18 +355,18 @@ example : Gen.check_multiclass_binned_auprc [3, 4] [3] 4 = .ok ∧ Valid_multicl
 theorem C18_accepts_multiclass_precision_recall_curve (i t : Shp) (nc : Option Int) :
     Gen.check_multiclass_precision_recall_curve i t nc = .ok ↔ Accepts_scores i t nc = true := by
   unfold Gen.check_multiclass_precision_recall_curve Accepts_scores
-  split_shape i <;> split_shape t <;> cases nc <;> simp [Accepts_tasks_strict, Valid_retrieval_precision, Accepts_multiclass, Accepts_tasks_nd, Accepts_tasks_2d, unsqueeze0, ndim, size, Res.ite_ok, weightOk, numel_eq_zero] <;> grind
+  split_shape i <;> split_shape t <;> cases nc <;> shape_auto
 
 theorem C18_complete_multiclass_precision_recall_curve (i t : Shp) (nc : Option Int) :
     Valid_multiclass_precision_recall_curve i t nc = true → Accepts_scores i t nc = true := by
   unfold Valid_multiclass_precision_recall_curve Accepts_scores
-  split_shape i <;> split_shape t <;> cases nc <;> simp [Valid_tasks1, Valid_1d, Valid_multiclass, Valid_scores, Valid_multilabel, Valid_tasks, Valid_regression, Valid_text, patterns_tasks0, liftW, Accepts_tasks_strict, Valid_retrieval_precision, Accepts_multiclass, Accepts_tasks_nd, Accepts_tasks_2d, unsqueeze0, ndim, size, Res.ite_ok, weightOk, numel_eq_zero] <;> grind
+  split_shape i <;> split_shape t <;> cases nc <;> shape_auto
 
 /-- nothing undocumented is accepted -/
 theorem C18_gap_multiclass_precision_recall_curve (i t : Shp) (nc : Option Int) :
     Accepts_scores i t nc = true → Valid_multiclass_precision_recall_curve i t nc = true := by
   unfold Valid_multiclass_precision_recall_curve Accepts_scores
-  split_shape i <;> split_shape t <;> cases nc <;> simp [Valid_tasks1, Valid_1d, Valid_multiclass, Valid_scores, Valid_multilabel, Valid_tasks, Valid_regression, Valid_text, patterns_tasks0, liftW, Accepts_tasks_strict, Valid_retrieval_precision, Accepts_multiclass, Accepts_tasks_nd, Accepts_tasks_2d, unsqueeze0, ndim, size, Res.ite_ok, weightOk, numel_eq_zero] <;> grind
+  split_shape i <;> split_shape t <;> cases nc <;> shape_auto
 
 example : Gen.check_multiclass_precision_recall_curve [3, 4] [3] none = .ok ∧ Valid_multiclass_precision_recall_curve [3, 4] [3] none = true := by decide
 
@@ -374,18 +375,18 @@ example : Gen.check_multiclass_precision_recall_curve [3, 4] [3] none = .ok ∧ 
 theorem C18_accepts_hit_rate (i t : Shp) :
     Gen.check_hit_rate i t none = .ok ↔ Accepts_rank i t = true := by
   unfold Gen.check_hit_rate Accepts_rank
-  split_shape i <;> split_shape t <;> simp [Accepts_tasks_strict, Valid_retrieval_precision, Accepts_multiclass, Accepts_tasks_nd, Accepts_tasks_2d, unsqueeze0, ndim, size, Res.ite_ok, weightOk, numel_eq_zero] <;> grind
+  split_shape i <;> split_shape t <;> shape_auto
 
 theorem C18_complete_hit_rate (i t : Shp) :
     Valid_hit_rate i t = true → Accepts_rank i t = true := by
   unfold Valid_hit_rate Accepts_rank
-  split_shape i <;> split_shape t <;> simp [Valid_tasks1, Valid_1d, Valid_multiclass, Valid_scores, Valid_multilabel, Valid_tasks, Valid_regression, Valid_text, patterns_tasks0, liftW, Accepts_tasks_strict, Valid_retrieval_precision, Accepts_multiclass, Accepts_tasks_nd, Accepts_tasks_2d, unsqueeze0, ndim, size, Res.ite_ok, weightOk, numel_eq_zero] <;> grind
+  split_shape i <;> split_shape t <;> shape_auto
 
 /-- nothing undocumented is accepted -/
 theorem C18_gap_hit_rate (i t : Shp) :
     Accepts_rank i t = true → Valid_hit_rate i t = true := by
   unfold Valid_hit_rate Accepts_rank
-  split_shape i <;> split_shape t <;> simp [Valid_tasks1, Valid_1d, Valid_multiclass, Valid_scores, Valid_multilabel, Valid_tasks, Valid_regression, Valid_text, patterns_tasks0, liftW, Accepts_tasks_strict, Valid_retrieval_precision, Accepts_multiclass, Accepts_tasks_nd, Accepts_tasks_2d, unsqueeze0, ndim, size, Res.ite_ok, weightOk, numel_eq_zero] <;> grind
+  split_shape i <;> split_shape t <;> shape_auto
 
 example : Gen.check_hit_rate [3, 4] [3] none = .ok ∧ Valid_hit_rate [3, 4] [3] = true := by decide
 
@@ -394,18 +395,18 @@ example : Gen.check_hit_rate [3, 4] [3] none = .ok ∧ Valid_hit_rate [3, 4] [3]
 theorem C18_accepts_reciprocal_rank (i t : Shp) :
     Gen.check_reciprocal_rank i t = .ok ↔ Accepts_rank i t = true := by
   unfold Gen.check_reciprocal_rank Accepts_rank
-  split_shape i <;> split_shape t <;> simp [Accepts_tasks_strict, Valid_retrieval_precision, Accepts_multiclass, Accepts_tasks_nd, Accepts_tasks_2d, unsqueeze0, ndim, size, Res.ite_ok, weightOk, numel_eq_zero] <;> grind
+  split_shape i <;> split_shape t <;> shape_auto
 
 theorem C18_complete_reciprocal_rank (i t : Shp) :
     Valid_reciprocal_rank i t = true → Accepts_rank i t = true := by
   unfold Valid_reciprocal_rank Accepts_rank
-  split_shape i <;> split_shape t <;> simp [Valid_tasks1, Valid_1d, Valid_multiclass, Valid_scores, Valid_multilabel, Valid_tasks, Valid_regression, Valid_text, patterns_tasks0, liftW, Accepts_tasks_strict, Valid_retrieval_precision, Accepts_multiclass, Accepts_tasks_nd, Accepts_tasks_2d, unsqueeze0, ndim, size, Res.ite_ok, weightOk, numel_eq_zero] <;> grind
+  split_shape i <;> split_shape t <;> shape_auto
 
 /-- nothing undocumented is accepted -/
 theorem C18_gap_reciprocal_rank (i t : Shp) :
     Accepts_rank i t = true → Valid_reciprocal_rank i t = true := by
   unfold Valid_reciprocal_rank Accepts_rank
-  split_shape i <;> split_shape t <;> simp [Valid_tasks1, Valid_1d, Valid_multiclass, Valid_scores, Valid_multilabel, Valid_tasks, Valid_regression, Valid_text, patterns_tasks0, liftW, Accepts_tasks_strict, Valid_retrieval_precision, Accepts_multiclass, Accepts_tasks_nd, Accepts_tasks_2d, unsqueeze0, ndim, size, Res.ite_ok, weightOk, numel_eq_zero] <;> grind
+  split_shape i <;> split_shape t <;> shape_auto
 
 example : Gen.check_reciprocal_rank [3, 4] [3] = .ok ∧ Valid_reciprocal_rank [3, 4] [3] = true := by decide
 
@@ -414,18 +415,18 @@ example : Gen.check_reciprocal_rank [3, 4] [3] = .ok ∧ Valid_reciprocal_rank [
 theorem C18_accepts_multilabel_accuracy (i t : Shp) :
     Gen.check_multilabel_accuracy i t = .ok ↔ Accepts_eq2d i t = true := by
   unfold Gen.check_multilabel_accuracy Accepts_eq2d
-  split_shape i <;> split_shape t <;> simp [Accepts_tasks_strict, Valid_retrieval_precision, Accepts_multiclass, Accepts_tasks_nd, Accepts_tasks_2d, unsqueeze0, ndim, size, Res.ite_ok, weightOk, numel_eq_zero] <;> grind
+  split_shape i <;> split_shape t <;> shape_auto
 
 theorem C18_complete_multilabel_accuracy (i t : Shp) :
     Valid_multilabel_accuracy i t = true → Accepts_eq2d i t = true := by
   unfold Valid_multilabel_accuracy Accepts_eq2d
-  split_shape i <;> split_shape t <;> simp [Valid_tasks1, Valid_1d, Valid_multiclass, Valid_scores, Valid_multilabel, Valid_tasks, Valid_regression, Valid_text, patterns_tasks0, liftW, Accepts_tasks_strict, Valid_retrieval_precision, Accepts_multiclass, Accepts_tasks_nd, Accepts_tasks_2d, unsqueeze0, ndim, size, Res.ite_ok, weightOk, numel_eq_zero] <;> grind
+  split_shape i <;> split_shape t <;> shape_auto
 
 /-- nothing undocumented is accepted -/
 theorem C18_gap_multilabel_accuracy (i t : Shp) :
     Accepts_eq2d i t = true → Valid_multilabel_accuracy i t = true := by
   unfold Valid_multilabel_accuracy Accepts_eq2d
-  split_shape i <;> split_shape t <;> simp [Valid_tasks1, Valid_1d, Valid_multiclass, Valid_scores, Valid_multilabel, Valid_tasks, Valid_regression, Valid_text, patterns_tasks0, liftW, Accepts_tasks_strict, Valid_retrieval_precision, Accepts_multiclass, Accepts_tasks_nd, Accepts_tasks_2d, unsqueeze0, ndim, size, Res.ite_ok, weightOk, numel_eq_zero] <;> grind
+  split_shape i <;> split_shape t <;> shape_auto
 
 example : Gen.check_multilabel_accuracy [3, 4] [3, 4] = .ok ∧ Valid_multilabel_accuracy [3, 4] [3, 4] = true := by decide
 
@@ -434,18 +435,18 @@ example : Gen.check_multilabel_accuracy [3, 4] [3, 4] = .ok ∧ Valid_multilabel
 theorem C18_accepts_topk_multilabel_accuracy (i t : Shp) (k : Int) :
     Gen.check_topk_multilabel_accuracy i t k = .ok ↔ Accepts_eq2d i t = true := by
   unfold Gen.check_topk_multilabel_accuracy Accepts_eq2d
-  split_shape i <;> split_shape t <;> simp [Accepts_tasks_strict, Valid_retrieval_precision, Accepts_multiclass, Accepts_tasks_nd, Accepts_tasks_2d, unsqueeze0, ndim, size, Res.ite_ok, weightOk, numel_eq_zero] <;> grind
+  split_shape i <;> split_shape t <;> shape_auto
 
 theorem C18_complete_topk_multilabel_accuracy (i t : Shp) (k : Int) :
     Valid_topk_multilabel_accuracy i t = true → Accepts_eq2d i t = true := by
   unfold Valid_topk_multilabel_accuracy Accepts_eq2d
-  split_shape i <;> split_shape t <;> simp [Valid_tasks1, Valid_1d, Valid_multiclass, Valid_scores, Valid_multilabel, Valid_tasks, Valid_regression, Valid_text, patterns_tasks0, liftW, Accepts_tasks_strict, Valid_retrieval_precision, Accepts_multiclass, Accepts_tasks_nd, Accepts_tasks_2d, unsqueeze0, ndim, size, Res.ite_ok, weightOk, numel_eq_zero] <;> grind
+  split_shape i <;> split_shape t <;> shape_auto
 
 /-- nothing undocumented is accepted -/
 theorem C18_gap_topk_multilabel_accuracy (i t : Shp) (k : Int) :
     Accepts_eq2d i t = true → Valid_topk_multilabel_accuracy i t = true := by
   unfold Valid_topk_multilabel_accuracy Accepts_eq2d
-  split_shape i <;> split_shape t <;> simp [Valid_tasks1, Valid_1d, Valid_multiclass, Valid_scores, Valid_multilabel, Valid_tasks, Valid_regression, Valid_text, patterns_tasks0, liftW, Accepts_tasks_strict, Valid_retrieval_precision, Accepts_multiclass, Accepts_tasks_nd, Accepts_tasks_2d, unsqueeze0, ndim, size, Res.ite_ok, weightOk, numel_eq_zero] <;> grind
+  split_shape i <;> split_shape t <;> shape_auto
 
 example : Gen.check_topk_multilabel_accuracy [3, 4] [3, 4] 2 = .ok ∧ Valid_topk_multilabel_accuracy [3, 4] [3, 4] = true := by decide
 
@@ -454,18 +455,18 @@ example : Gen.check_topk_multilabel_accuracy [3, 4] [3, 4] 2 = .ok ∧ Valid_top
 theorem C18_accepts_multilabel_auprc (i t : Shp) (L : Int) :
     Gen.check_multilabel_auprc i t L = .ok ↔ Accepts_multilabel i t L = true := by
   unfold Gen.check_multilabel_auprc Accepts_multilabel
-  split_shape i <;> split_shape t <;> simp [Accepts_tasks_strict, Valid_retrieval_precision, Accepts_multiclass, Accepts_tasks_nd, Accepts_tasks_2d, unsqueeze0, ndim, size, Res.ite_ok, weightOk, numel_eq_zero] <;> grind
+  split_shape i <;> split_shape t <;> shape_auto
 
 theorem C18_complete_multilabel_auprc (i t : Shp) (L : Int) :
     Valid_multilabel_auprc i t L = true → Accepts_multilabel i t L = true := by
   unfold Valid_multilabel_auprc Accepts_multilabel
-  split_shape i <;> split_shape t <;> simp [Valid_tasks1, Valid_1d, Valid_multiclass, Valid_scores, Valid_multilabel, Valid_tasks, Valid_regression, Valid_text, patterns_tasks0, liftW, Accepts_tasks_strict, Valid_retrieval_precision, Accepts_multiclass, Accepts_tasks_nd, Accepts_tasks_2d, unsqueeze0, ndim, size, Res.ite_ok, weightOk, numel_eq_zero] <;> grind
+  split_shape i <;> split_shape t <;> shape_auto
 
 /-- nothing undocumented is accepted -/
 theorem C18_gap_multilabel_auprc (i t : Shp) (L : Int) :
     Accepts_multilabel i t L = true → Valid_multilabel_auprc i t L = true := by
   unfold Valid_multilabel_auprc Accepts_multilabel
-  split_shape i <;> split_shape t <;> simp [Valid_tasks1, Valid_1d, Valid_multiclass, Valid_scores, Valid_multilabel, Valid_tasks, Valid_regression, Valid_text, patterns_tasks0, liftW, Accepts_tasks_strict, Valid_retrieval_precision, Accepts_multiclass, Accepts_tasks_nd, Accepts_tasks_2d, unsqueeze0, ndim, size, Res.ite_ok, weightOk, numel_eq_zero] <;> grind
+  split_shape i <;> split_shape t <;> shape_auto
 
 example : Gen.check_multilabel_auprc [3, 4] [3, 4] 4 = .ok ∧ Valid_multilabel_auprc [3, 4] [3, 4] 4 = true := by decide
 
@@ -474,18 +475,18 @@ example : Gen.check_multilabel_auprc [3, 4] [3, 4] 4 = .ok ∧ Valid_multilabel_
 theorem C18_accepts_multilabel_binned_auprc (i t : Shp) (L : Int) :
     Gen.check_multilabel_binned_auprc i t L = .ok ↔ Accepts_multilabel i t L = true := by
   unfold Gen.check_multilabel_binned_auprc Accepts_multilabel
-  split_shape i <;> split_shape t <;> simp [Accepts_tasks_strict, Valid_retrieval_precision, Accepts_multiclass, Accepts_tasks_nd, Accepts_tasks_2d, unsqueeze0, ndim, size, Res.ite_ok, weightOk, numel_eq_zero] <;> grind
+  split_shape i <;> split_shape t <;> shape_auto
 
 theorem C18_complete_multilabel_binned_auprc (i t : Shp) (L : Int) :
     Valid_multilabel_binned_auprc i t L = true → Accepts_multilabel i t L = true := by
   unfold Valid_multilabel_binned_auprc Accepts_multilabel
-  split_shape i <;> split_shape t <;> simp [Valid_tasks1, Valid_1d, Valid_multiclass, Valid_scores, Valid_multilabel, Valid_tasks, Valid_regression, Valid_text, patterns_tasks0, liftW, Accepts_tasks_strict, Valid_retrieval_precision, Accepts_multiclass, Accepts_tasks_nd, Accepts_tasks_2d, unsqueeze0, ndim, size, Res.ite_ok, weightOk, numel_eq_zero] <;> grind
+  split_shape i <;> split_shape t <;> shape_auto
 
 /-- nothing undocumented is accepted -/
 theorem C18_gap_multilabel_binned_auprc (i t : Shp) (L : Int) :
     Accepts_multilabel i t L = true → Valid_multilabel_binned_auprc i t L = true := by
   unfold Valid_multilabel_binned_auprc Accepts_multilabel
-  split_shape i <;> split_shape t <;> simp [Valid_tasks1, Valid_1d, Valid_multiclass, Valid_scores, Valid_multilabel, Valid_tasks, Valid_regression, Valid_text, patterns_tasks0, liftW, Accepts_tasks_strict, Valid_retrieval_precision, Accepts_multiclass, Accepts_tasks_nd, Accepts_tasks_2d, unsqueeze0, ndim, size, Res.ite_ok, weightOk, numel_eq_zero] <;> grind
+  split_shape i <;> split_shape t <;> shape_auto
 
 example : Gen.check_multilabel_binned_auprc [3, 4] [3, 4] 4 = .ok ∧ Valid_multilabel_binned_auprc [3, 4] [3, 4] 4 = true := by decide
 
@@ -494,18 +495,18 @@ example : Gen.check_multilabel_binned_auprc [3, 4] [3, 4] 4 = .ok ∧ Valid_mult
 theorem C18_accepts_multilabel_precision_recall_curve (i t : Shp) (L : Int) :
     Gen.check_multilabel_precision_recall_curve i t L = .ok ↔ Accepts_multilabel i t L = true := by
   unfold Gen.check_multilabel_precision_recall_curve Accepts_multilabel
-  split_shape i <;> split_shape t <;> simp [Accepts_tasks_strict, Valid_retrieval_precision, Accepts_multiclass, Accepts_tasks_nd, Accepts_tasks_2d, unsqueeze0, ndim, size, Res.ite_ok, weightOk, numel_eq_zero] <;> grind
+  split_shape i <;> split_shape t <;> shape_auto
 
 theorem C18_complete_multilabel_precision_recall_curve (i t : Shp) (L : Int) :
     Valid_multilabel_precision_recall_curve i t L = true → Accepts_multilabel i t L = true := by
   unfold Valid_multilabel_precision_recall_curve Accepts_multilabel
-  split_shape i <;> split_shape t <;> simp [Valid_tasks1, Valid_1d, Valid_multiclass, Valid_scores, Valid_multilabel, Valid_tasks, Valid_regression, Valid_text, patterns_tasks0, liftW, Accepts_tasks_strict, Valid_retrieval_precision, Accepts_multiclass, Accepts_tasks_nd, Accepts_tasks_2d, unsqueeze0, ndim, size, Res.ite_ok, weightOk, numel_eq_zero] <;> grind
+  split_shape i <;> split_shape t <;> shape_auto
 
 /-- nothing undocumented is accepted -/
 theorem C18_gap_multilabel_precision_recall_curve (i t : Shp) (L : Int) :
     Accepts_multilabel i t L = true → Valid_multilabel_precision_recall_curve i t L = true := by
   unfold Valid_multilabel_precision_recall_curve Accepts_multilabel
-  split_shape i <;> split_shape t <;> simp [Valid_tasks1, Valid_1d, Valid_multiclass, Valid_scores, Valid_multilabel, Valid_tasks, Valid_regression, Valid_text, patterns_tasks0, liftW, Accepts_tasks_strict, Valid_retrieval_precision, Accepts_multiclass, Accepts_tasks_nd, Accepts_tasks_2d, unsqueeze0, ndim, size, Res.ite_ok, weightOk, numel_eq_zero] <;> grind
+  split_shape i <;> split_shape t <;> shape_auto
 
 example : Gen.check_multilabel_precision_recall_curve [3, 4] [3, 4] 4 = .ok ∧ Valid_multilabel_precision_recall_curve [3, 4] [3, 4] 4 = true := by decide
 
@@ -514,18 +515,18 @@ example : Gen.check_multilabel_precision_recall_curve [3, 4] [3, 4] 4 = .ok ∧ 
 theorem C18_accepts_multilabel_recall_at_fixed_precision (i t : Shp) (L : Int) :
     Gen.check_multilabel_recall_at_fixed_precision i t L false = .ok ↔ Accepts_multilabel i t L = true := by
   unfold Gen.check_multilabel_recall_at_fixed_precision Accepts_multilabel Gen.check_multilabel_precision_recall_curve
-  split_shape i <;> split_shape t <;> simp [Accepts_tasks_strict, Valid_retrieval_precision, Accepts_multiclass, Accepts_tasks_nd, Accepts_tasks_2d, unsqueeze0, ndim, size, Res.ite_ok, weightOk, numel_eq_zero] <;> grind
+  split_shape i <;> split_shape t <;> shape_auto
 
 theorem C18_complete_multilabel_recall_at_fixed_precision (i t : Shp) (L : Int) :
     Valid_multilabel_recall_at_fixed_precision i t L = true → Accepts_multilabel i t L = true := by
   unfold Valid_multilabel_recall_at_fixed_precision Accepts_multilabel
-  split_shape i <;> split_shape t <;> simp [Valid_tasks1, Valid_1d, Valid_multiclass, Valid_scores, Valid_multilabel, Valid_tasks, Valid_regression, Valid_text, patterns_tasks0, liftW, Accepts_tasks_strict, Valid_retrieval_precision, Accepts_multiclass, Accepts_tasks_nd, Accepts_tasks_2d, unsqueeze0, ndim, size, Res.ite_ok, weightOk, numel_eq_zero] <;> grind
+  split_shape i <;> split_shape t <;> shape_auto
 
 /-- nothing undocumented is accepted -/
 theorem C18_gap_multilabel_recall_at_fixed_precision (i t : Shp) (L : Int) :
     Accepts_multilabel i t L = true → Valid_multilabel_recall_at_fixed_precision i t L = true := by
   unfold Valid_multilabel_recall_at_fixed_precision Accepts_multilabel
-  split_shape i <;> split_shape t <;> simp [Valid_tasks1, Valid_1d, Valid_multiclass, Valid_scores, Valid_multilabel, Valid_tasks, Valid_regression, Valid_text, patterns_tasks0, liftW, Accepts_tasks_strict, Valid_retrieval_precision, Accepts_multiclass, Accepts_tasks_nd, Accepts_tasks_2d, unsqueeze0, ndim, size, Res.ite_ok, weightOk, numel_eq_zero] <;> grind
+  split_shape i <;> split_shape t <;> shape_auto
 
 example : Gen.check_multilabel_recall_at_fixed_precision [3, 4] [3, 4] 4 false = .ok ∧ Valid_multilabel_recall_at_fixed_precision [3, 4] [3, 4] 4 = true := by decide
 
@@ -534,17 +535,17 @@ example : Gen.check_multilabel_recall_at_fixed_precision [3, 4] [3, 4] 4 false =
 theorem C18_accepts_binary_auprc (i t : Shp) (T : Int) :
     Gen.check_binary_auprc i t T = .ok ↔ Accepts_binary_auprc i t T = true := by
   unfold Gen.check_binary_auprc Accepts_binary_auprc
-  split_shape i <;> split_shape t <;> simp [Accepts_tasks_strict, Valid_retrieval_precision, Accepts_multiclass, Accepts_tasks_nd, Accepts_tasks_2d, unsqueeze0, ndim, size, Res.ite_ok, weightOk, numel_eq_zero] <;> grind
+  split_shape i <;> split_shape t <;> shape_auto
 
 theorem C18_complete_binary_auprc (i t : Shp) (T : Int) :
     Valid_binary_auprc i t T = true → Accepts_binary_auprc i t T = true := by
   unfold Valid_binary_auprc Accepts_binary_auprc
-  split_shape i <;> split_shape t <;> simp [Valid_tasks1, Valid_1d, Valid_multiclass, Valid_scores, Valid_multilabel, Valid_tasks, Valid_regression, Valid_text, patterns_tasks0, liftW, Accepts_tasks_strict, Valid_retrieval_precision, Accepts_multiclass, Accepts_tasks_nd, Accepts_tasks_2d, unsqueeze0, ndim, size, Res.ite_ok, weightOk, numel_eq_zero] <;> grind
+  split_shape i <;> split_shape t <;> shape_auto
 
 theorem C18_gap_binary_auprc (i t : Shp) (T : Int) :
     (Accepts_binary_auprc i t T && !Valid_binary_auprc i t T) = true ↔ (patterns_binary_auprc.any fun p => p.2 i t T) = true := by
   unfold Valid_binary_auprc Accepts_binary_auprc patterns_binary_auprc
-  split_shape i <;> split_shape t <;> simp [Valid_tasks1, Valid_1d, Valid_multiclass, Valid_scores, Valid_multilabel, Valid_tasks, Valid_regression, Valid_text, patterns_tasks0, liftW, Accepts_tasks_strict, Valid_retrieval_precision, Accepts_multiclass, Accepts_tasks_nd, Accepts_tasks_2d, unsqueeze0, ndim, size, Res.ite_ok, weightOk, numel_eq_zero] <;> grind
+  split_shape i <;> split_shape t <;> shape_auto
 
 example : Gen.check_binary_auprc [2, 3] [2, 3] 2 = .ok ∧ Valid_binary_auprc [2, 3] [2, 3] 2 = true := by decide
 
@@ -553,18 +554,18 @@ example : Gen.check_binary_auprc [2, 3] [2, 3] 2 = .ok ∧ Valid_binary_auprc [2
 theorem C18_accepts_binary_binned_auprc (i t th : Shp) (T : Int) :
     Gen.check_binary_binned_auprc i t T th = .ok ↔ Accepts_binary_binned_auprc i t T = true := by
   unfold Gen.check_binary_binned_auprc Accepts_binary_binned_auprc
-  split_shape i <;> split_shape t <;> simp [Accepts_tasks_strict, Valid_retrieval_precision, Accepts_multiclass, Accepts_tasks_nd, Accepts_tasks_2d, unsqueeze0, ndim, size, Res.ite_ok, weightOk, numel_eq_zero] <;> grind
+  split_shape i <;> split_shape t <;> shape_auto
 
 theorem C18_complete_binary_binned_auprc (i t th : Shp) (T : Int) :
     Valid_binary_binned_auprc i t T = true → Accepts_binary_binned_auprc i t T = true := by
   unfold Valid_binary_binned_auprc Accepts_binary_binned_auprc
-  split_shape i <;> split_shape t <;> simp [Valid_tasks1, Valid_1d, Valid_multiclass, Valid_scores, Valid_multilabel, Valid_tasks, Valid_regression, Valid_text, patterns_tasks0, liftW, Accepts_tasks_strict, Valid_retrieval_precision, Accepts_multiclass, Accepts_tasks_nd, Accepts_tasks_2d, unsqueeze0, ndim, size, Res.ite_ok, weightOk, numel_eq_zero] <;> grind
+  split_shape i <;> split_shape t <;> shape_auto
 
 /-- nothing undocumented is accepted -/
 theorem C18_gap_binary_binned_auprc (i t th : Shp) (T : Int) :
     Accepts_binary_binned_auprc i t T = true → Valid_binary_binned_auprc i t T = true := by
   unfold Valid_binary_binned_auprc Accepts_binary_binned_auprc
-  split_shape i <;> split_shape t <;> simp [Valid_tasks1, Valid_1d, Valid_multiclass, Valid_scores, Valid_multilabel, Valid_tasks, Valid_regression, Valid_text, patterns_tasks0, liftW, Accepts_tasks_strict, Valid_retrieval_precision, Accepts_multiclass, Accepts_tasks_nd, Accepts_tasks_2d, unsqueeze0, ndim, size, Res.ite_ok, weightOk, numel_eq_zero] <;> grind
+  split_shape i <;> split_shape t <;> shape_auto
 
 example : Gen.check_binary_binned_auprc [1, 3] [1, 3] 1 [5] = .ok ∧ Valid_binary_binned_auprc [1, 3] [1, 3] 1 = true := by decide
 
@@ -573,18 +574,18 @@ example : Gen.check_binary_binned_auprc [1, 3] [1, 3] 1 [5] = .ok ∧ Valid_bina
 theorem C18_accepts_binary_binned_auroc (i t th : Shp) (T : Int) :
     Gen.check_binary_binned_auroc i t T th = .ok ↔ Accepts_tasks_strict i t T = true := by
   unfold Gen.check_binary_binned_auroc Accepts_tasks_strict
-  split_shape i <;> split_shape t <;> simp [Accepts_tasks_strict, Valid_retrieval_precision, Accepts_multiclass, Accepts_tasks_nd, Accepts_tasks_2d, unsqueeze0, ndim, size, Res.ite_ok, weightOk, numel_eq_zero] <;> grind
+  split_shape i <;> split_shape t <;> shape_auto
 
 theorem C18_complete_binary_binned_auroc (i t th : Shp) (T : Int) :
     Valid_binary_binned_auroc i t T = true → Accepts_tasks_strict i t T = true := by
   unfold Valid_binary_binned_auroc Accepts_tasks_strict
-  split_shape i <;> split_shape t <;> simp [Valid_tasks1, Valid_1d, Valid_multiclass, Valid_scores, Valid_multilabel, Valid_tasks, Valid_regression, Valid_text, patterns_tasks0, liftW, Accepts_tasks_strict, Valid_retrieval_precision, Accepts_multiclass, Accepts_tasks_nd, Accepts_tasks_2d, unsqueeze0, ndim, size, Res.ite_ok, weightOk, numel_eq_zero] <;> grind
+  split_shape i <;> split_shape t <;> shape_auto
 
 /-- nothing undocumented is accepted -/
 theorem C18_gap_binary_binned_auroc (i t th : Shp) (T : Int) :
     Accepts_tasks_strict i t T = true → Valid_binary_binned_auroc i t T = true := by
   unfold Valid_binary_binned_auroc Accepts_tasks_strict
-  split_shape i <;> split_shape t <;> simp [Valid_tasks1, Valid_1d, Valid_multiclass, Valid_scores, Valid_multilabel, Valid_tasks, Valid_regression, Valid_text, patterns_tasks0, liftW, Accepts_tasks_strict, Valid_retrieval_precision, Accepts_multiclass, Accepts_tasks_nd, Accepts_tasks_2d, unsqueeze0, ndim, size, Res.ite_ok, weightOk, numel_eq_zero] <;> grind
+  split_shape i <;> split_shape t <;> shape_auto
 
 example : Gen.check_binary_binned_auroc [2, 3] [2, 3] 2 [5] = .ok ∧ Valid_binary_binned_auroc [2, 3] [2, 3] 2 = true := by decide
 
@@ -593,18 +594,18 @@ example : Gen.check_binary_binned_auroc [2, 3] [2, 3] 2 [5] = .ok ∧ Valid_bina
 theorem C18_accepts_retrieval_precision (i t : Shp) (T : Int) (ix : Option Shp) (q : Int) :
     Gen.check_retrieval_precision i t T ix q = .ok ↔ Accepts_retrieval i t T ix = true := by
   unfold Gen.check_retrieval_precision Accepts_retrieval
-  split_shape i <;> split_shape t <;> cases ix <;> simp [Accepts_tasks_strict, Valid_retrieval_precision, Accepts_multiclass, Accepts_tasks_nd, Accepts_tasks_2d, unsqueeze0, ndim, size, Res.ite_ok, weightOk, numel_eq_zero] <;> grind
+  split_shape i <;> split_shape t <;> cases ix <;> shape_auto
 
 theorem C18_complete_retrieval_precision (i t : Shp) (T : Int) (ix : Option Shp) (q : Int) :
     Valid_retrieval_precision i t T ix = true → Accepts_retrieval i t T ix = true := by
   unfold Valid_retrieval_precision Accepts_retrieval
-  split_shape i <;> split_shape t <;> cases ix <;> simp [Valid_tasks1, Valid_1d, Valid_multiclass, Valid_scores, Valid_multilabel, Valid_tasks, Valid_regression, Valid_text, patterns_tasks0, liftW, Accepts_tasks_strict, Valid_retrieval_precision, Accepts_multiclass, Accepts_tasks_nd, Accepts_tasks_2d, unsqueeze0, ndim, size, Res.ite_ok, weightOk, numel_eq_zero] <;> grind
+  split_shape i <;> split_shape t <;> cases ix <;> shape_auto
 
 /-- nothing undocumented is accepted -/
 theorem C18_gap_retrieval_precision (i t : Shp) (T : Int) (ix : Option Shp) (q : Int) :
     Accepts_retrieval i t T ix = true → Valid_retrieval_precision i t T ix = true := by
   unfold Valid_retrieval_precision Accepts_retrieval
-  split_shape i <;> split_shape t <;> cases ix <;> simp [Valid_tasks1, Valid_1d, Valid_multiclass, Valid_scores, Valid_multilabel, Valid_tasks, Valid_regression, Valid_text, patterns_tasks0, liftW, Accepts_tasks_strict, Valid_retrieval_precision, Accepts_multiclass, Accepts_tasks_nd, Accepts_tasks_2d, unsqueeze0, ndim, size, Res.ite_ok, weightOk, numel_eq_zero] <;> grind
+  split_shape i <;> split_shape t <;> cases ix <;> shape_auto
 
 example : Gen.check_retrieval_precision [3] [3] 1 (some [3]) 2 = .ok ∧ Valid_retrieval_precision [3] [3] 1 (some [3]) = true := by decide
 
@@ -613,18 +614,18 @@ example : Gen.check_retrieval_precision [3] [3] 1 (some [3]) 2 = .ok ∧ Valid_r
 theorem C18_accepts_retrieval_recall (i t : Shp) (T : Int) (ix : Option Shp) (q : Int) :
     Gen.check_retrieval_recall i t T ix q = .ok ↔ Accepts_retrieval i t T ix = true := by
   unfold Gen.check_retrieval_recall Accepts_retrieval
-  split_shape i <;> split_shape t <;> cases ix <;> simp [Accepts_tasks_strict, Valid_retrieval_precision, Accepts_multiclass, Accepts_tasks_nd, Accepts_tasks_2d, unsqueeze0, ndim, size, Res.ite_ok, weightOk, numel_eq_zero] <;> grind
+  split_shape i <;> split_shape t <;> cases ix <;> shape_auto
 
 theorem C18_complete_retrieval_recall (i t : Shp) (T : Int) (ix : Option Shp) (q : Int) :
     Valid_retrieval_recall i t T ix = true → Accepts_retrieval i t T ix = true := by
   unfold Valid_retrieval_recall Accepts_retrieval
-  split_shape i <;> split_shape t <;> cases ix <;> simp [Valid_tasks1, Valid_1d, Valid_multiclass, Valid_scores, Valid_multilabel, Valid_tasks, Valid_regression, Valid_text, patterns_tasks0, liftW, Accepts_tasks_strict, Valid_retrieval_precision, Accepts_multiclass, Accepts_tasks_nd, Accepts_tasks_2d, unsqueeze0, ndim, size, Res.ite_ok, weightOk, numel_eq_zero] <;> grind
+  split_shape i <;> split_shape t <;> cases ix <;> shape_auto
 
 /-- nothing undocumented is accepted -/
 theorem C18_gap_retrieval_recall (i t : Shp) (T : Int) (ix : Option Shp) (q : Int) :
     Accepts_retrieval i t T ix = true → Valid_retrieval_recall i t T ix = true := by
   unfold Valid_retrieval_recall Accepts_retrieval
-  split_shape i <;> split_shape t <;> cases ix <;> simp [Valid_tasks1, Valid_1d, Valid_multiclass, Valid_scores, Valid_multilabel, Valid_tasks, Valid_regression, Valid_text, patterns_tasks0, liftW, Accepts_tasks_strict, Valid_retrieval_precision, Accepts_multiclass, Accepts_tasks_nd, Accepts_tasks_2d, unsqueeze0, ndim, size, Res.ite_ok, weightOk, numel_eq_zero] <;> grind
+  split_shape i <;> split_shape t <;> cases ix <;> shape_auto
 
 example : Gen.check_retrieval_recall [3] [3] 1 (some [3]) 2 = .ok ∧ Valid_retrieval_recall [3] [3] 1 (some [3]) = true := by decide
 
@@ -633,17 +634,17 @@ example : Gen.check_retrieval_recall [3] [3] 1 (some [3]) 2 = .ok ∧ Valid_retr
 theorem C18_accepts_binary_auroc (i t : Shp) (T : Int) (w : Option Shp) :
     Gen.check_binary_auroc i t T w = .ok ↔ Accepts_binary_auroc i t T w = true := by
   unfold Gen.check_binary_auroc Accepts_binary_auroc
-  split_shape i <;> split_shape t <;> cases w <;> simp [Accepts_tasks_strict, Valid_retrieval_precision, Accepts_multiclass, Accepts_tasks_nd, Accepts_tasks_2d, unsqueeze0, ndim, size, Res.ite_ok, weightOk, numel_eq_zero] <;> grind
+  split_shape i <;> split_shape t <;> cases w <;> shape_auto
 
 theorem C18_complete_binary_auroc (i t : Shp) (T : Int) (w : Option Shp) :
     Valid_binary_auroc i t T w = true → Accepts_binary_auroc i t T w = true := by
   unfold Valid_binary_auroc Accepts_binary_auroc
-  split_shape i <;> split_shape t <;> cases w <;> simp [Valid_tasks1, Valid_1d, Valid_multiclass, Valid_scores, Valid_multilabel, Valid_tasks, Valid_regression, Valid_text, patterns_tasks0, liftW, Accepts_tasks_strict, Valid_retrieval_precision, Accepts_multiclass, Accepts_tasks_nd, Accepts_tasks_2d, unsqueeze0, ndim, size, Res.ite_ok, weightOk, numel_eq_zero] <;> grind
+  split_shape i <;> split_shape t <;> cases w <;> shape_auto
 
 theorem C18_gap_binary_auroc (i t : Shp) (T : Int) (w : Option Shp) :
     (Accepts_binary_auroc i t T w && !Valid_binary_auroc i t T w) = true ↔ (patterns_binary_auroc.any fun p => p.2 i t T w) = true := by
   unfold Valid_binary_auroc Accepts_binary_auroc patterns_binary_auroc
-  split_shape i <;> split_shape t <;> cases w <;> simp [Valid_tasks1, Valid_1d, Valid_multiclass, Valid_scores, Valid_multilabel, Valid_tasks, Valid_regression, Valid_text, patterns_tasks0, liftW, Accepts_tasks_strict, Valid_retrieval_precision, Accepts_multiclass, Accepts_tasks_nd, Accepts_tasks_2d, unsqueeze0, ndim, size, Res.ite_ok, weightOk, numel_eq_zero] <;> grind
+  split_shape i <;> split_shape t <;> cases w <;> shape_auto
 
 example : Gen.check_binary_auroc [2, 3] [2, 3] 2 (some [2, 3]) = .ok ∧ Valid_binary_auroc [2, 3] [2, 3] 2 (some [2, 3]) = true := by decide
 
@@ -652,18 +653,18 @@ example : Gen.check_binary_auroc [2, 3] [2, 3] 2 (some [2, 3]) = .ok ∧ Valid_b
 theorem C18_accepts_ne (i t : Shp) (fl : Bool) (T : Int) (w : Option Shp) :
     Gen.check_ne i t fl T w false = .ok ↔ Accepts_ne i t T w = true := by
   unfold Gen.check_ne Accepts_ne
-  split_shape i <;> split_shape t <;> cases w <;> simp [Accepts_tasks_strict, Valid_retrieval_precision, Accepts_multiclass, Accepts_tasks_nd, Accepts_tasks_2d, unsqueeze0, ndim, size, Res.ite_ok, weightOk, numel_eq_zero] <;> grind
+  split_shape i <;> split_shape t <;> cases w <;> shape_auto
 
 theorem C18_complete_ne (i t : Shp) (fl : Bool) (T : Int) (w : Option Shp) :
     Valid_ne i t T w = true → Accepts_ne i t T w = true := by
   unfold Valid_ne Accepts_ne
-  split_shape i <;> split_shape t <;> cases w <;> simp [Valid_tasks1, Valid_1d, Valid_multiclass, Valid_scores, Valid_multilabel, Valid_tasks, Valid_regression, Valid_text, patterns_tasks0, liftW, Accepts_tasks_strict, Valid_retrieval_precision, Accepts_multiclass, Accepts_tasks_nd, Accepts_tasks_2d, unsqueeze0, ndim, size, Res.ite_ok, weightOk, numel_eq_zero] <;> grind
+  split_shape i <;> split_shape t <;> cases w <;> shape_auto
 
 /-- nothing undocumented is accepted -/
 theorem C18_gap_ne (i t : Shp) (fl : Bool) (T : Int) (w : Option Shp) :
     Accepts_ne i t T w = true → Valid_ne i t T w = true := by
   unfold Valid_ne Accepts_ne
-  split_shape i <;> split_shape t <;> cases w <;> simp [Valid_tasks1, Valid_1d, Valid_multiclass, Valid_scores, Valid_multilabel, Valid_tasks, Valid_regression, Valid_text, patterns_tasks0, liftW, Accepts_tasks_strict, Valid_retrieval_precision, Accepts_multiclass, Accepts_tasks_nd, Accepts_tasks_2d, unsqueeze0, ndim, size, Res.ite_ok, weightOk, numel_eq_zero] <;> grind
+  split_shape i <;> split_shape t <;> cases w <;> shape_auto
 
 example : Gen.check_ne [2, 3] [2, 3] false 2 (some [2, 3]) false = .ok ∧ Valid_ne [2, 3] [2, 3] 2 (some [2, 3]) = true := by decide
 
@@ -672,17 +673,17 @@ example : Gen.check_ne [2, 3] [2, 3] false 2 (some [2, 3]) false = .ok ∧ Valid
 theorem C18_accepts_weighted_calibration (i t : Shp) (w : Option Shp) (T : Int) :
     Gen.check_weighted_calibration i t w T = .ok ↔ Accepts_weighted_calibration i t T = true := by
   unfold Gen.check_weighted_calibration Accepts_weighted_calibration
-  split_shape i <;> split_shape t <;> cases w <;> simp [Accepts_tasks_strict, Valid_retrieval_precision, Accepts_multiclass, Accepts_tasks_nd, Accepts_tasks_2d, unsqueeze0, ndim, size, Res.ite_ok, weightOk, numel_eq_zero] <;> grind
+  split_shape i <;> split_shape t <;> cases w <;> shape_auto
 
 theorem C18_complete_weighted_calibration (i t : Shp) (w : Option Shp) (T : Int) :
     Valid_weighted_calibration i t w T = true → Accepts_weighted_calibration i t T = true := by
   unfold Valid_weighted_calibration Accepts_weighted_calibration
-  split_shape i <;> split_shape t <;> cases w <;> simp [Valid_tasks1, Valid_1d, Valid_multiclass, Valid_scores, Valid_multilabel, Valid_tasks, Valid_regression, Valid_text, patterns_tasks0, liftW, Accepts_tasks_strict, Valid_retrieval_precision, Accepts_multiclass, Accepts_tasks_nd, Accepts_tasks_2d, unsqueeze0, ndim, size, Res.ite_ok, weightOk, numel_eq_zero] <;> grind
+  split_shape i <;> split_shape t <;> cases w <;> shape_auto
 
 theorem C18_gap_weighted_calibration (i t : Shp) (w : Option Shp) (T : Int) :
     (Accepts_weighted_calibration i t T && !Valid_weighted_calibration i t w T) = true ↔ (patterns_weighted_calibration.any fun p => p.2 i t T w) = true := by
   unfold Valid_weighted_calibration Accepts_weighted_calibration patterns_weighted_calibration
-  split_shape i <;> split_shape t <;> cases w <;> simp [Valid_tasks1, Valid_1d, Valid_multiclass, Valid_scores, Valid_multilabel, Valid_tasks, Valid_regression, Valid_text, patterns_tasks0, liftW, Accepts_tasks_strict, Valid_retrieval_precision, Accepts_multiclass, Accepts_tasks_nd, Accepts_tasks_2d, unsqueeze0, ndim, size, Res.ite_ok, weightOk, numel_eq_zero] <;> grind
+  split_shape i <;> split_shape t <;> cases w <;> shape_auto
 
 example : Gen.check_weighted_calibration [2, 3] [2, 3] (some [2, 3]) 2 = .ok ∧ Valid_weighted_calibration [2, 3] [2, 3] (some [2, 3]) 2 = true := by decide
 
@@ -691,18 +692,18 @@ example : Gen.check_weighted_calibration [2, 3] [2, 3] (some [2, 3]) 2 = .ok ∧
 theorem C18_accepts_click_through_rate (i : Shp) (w : Option Shp) (T : Int) :
     Gen.check_click_through_rate i w T = .ok ↔ Accepts_click_through_rate i w T = true := by
   unfold Gen.check_click_through_rate Accepts_click_through_rate
-  split_shape i <;> cases w <;> simp [Accepts_tasks_strict, Valid_retrieval_precision, Accepts_multiclass, Accepts_tasks_nd, Accepts_tasks_2d, unsqueeze0, ndim, size, Res.ite_ok, weightOk, numel_eq_zero] <;> grind
+  split_shape i <;> cases w <;> shape_auto
 
 theorem C18_complete_click_through_rate (i : Shp) (w : Option Shp) (T : Int) :
     Valid_click_through_rate i w T = true → Accepts_click_through_rate i w T = true := by
   unfold Valid_click_through_rate Accepts_click_through_rate
-  split_shape i <;> cases w <;> simp [Valid_tasks1, Valid_1d, Valid_multiclass, Valid_scores, Valid_multilabel, Valid_tasks, Valid_regression, Valid_text, patterns_tasks0, liftW, Accepts_tasks_strict, Valid_retrieval_precision, Accepts_multiclass, Accepts_tasks_nd, Accepts_tasks_2d, unsqueeze0, ndim, size, Res.ite_ok, weightOk, numel_eq_zero] <;> grind
+  split_shape i <;> cases w <;> shape_auto
 
 /-- nothing undocumented is accepted -/
 theorem C18_gap_click_through_rate (i : Shp) (w : Option Shp) (T : Int) :
     Accepts_click_through_rate i w T = true → Valid_click_through_rate i w T = true := by
   unfold Valid_click_through_rate Accepts_click_through_rate
-  split_shape i <;> cases w <;> simp [Valid_tasks1, Valid_1d, Valid_multiclass, Valid_scores, Valid_multilabel, Valid_tasks, Valid_regression, Valid_text, patterns_tasks0, liftW, Accepts_tasks_strict, Valid_retrieval_precision, Accepts_multiclass, Accepts_tasks_nd, Accepts_tasks_2d, unsqueeze0, ndim, size, Res.ite_ok, weightOk, numel_eq_zero] <;> grind
+  split_shape i <;> cases w <;> shape_auto
 
 example : Gen.check_click_through_rate [2, 3] (some [2, 3]) 2 = .ok ∧ Valid_click_through_rate [2, 3] (some [2, 3]) 2 = true := by decide
 
@@ -711,17 +712,17 @@ example : Gen.check_click_through_rate [2, 3] (some [2, 3]) 2 = .ok ∧ Valid_cl
 theorem C18_accepts_mean_squared_error (i t : Shp) (w : Option Shp) :
     Gen.check_mean_squared_error i t w = .ok ↔ Accepts_mean_squared_error i t w = true := by
   unfold Gen.check_mean_squared_error Accepts_mean_squared_error
-  split_shape i <;> split_shape t <;> rcases w with _ | w <;> (try split_shape3 w) <;> simp [Accepts_tasks_strict, Valid_retrieval_precision, Accepts_multiclass, Accepts_tasks_nd, Accepts_tasks_2d, unsqueeze0, ndim, size, Res.ite_ok, weightOk, numel_eq_zero] <;> grind
+  split_shape i <;> split_shape t <;> rcases w with _ | w <;> (try split_shape3 w) <;> shape_auto
 
 theorem C18_complete_mean_squared_error (i t : Shp) (w : Option Shp) :
     Valid_mean_squared_error i t w = true → Accepts_mean_squared_error i t w = true := by
   unfold Valid_mean_squared_error Accepts_mean_squared_error
-  split_shape i <;> split_shape t <;> rcases w with _ | w <;> (try split_shape3 w) <;> simp [Valid_tasks1, Valid_1d, Valid_multiclass, Valid_scores, Valid_multilabel, Valid_tasks, Valid_regression, Valid_text, patterns_tasks0, liftW, Accepts_tasks_strict, Valid_retrieval_precision, Accepts_multiclass, Accepts_tasks_nd, Accepts_tasks_2d, unsqueeze0, ndim, size, Res.ite_ok, weightOk, numel_eq_zero] <;> grind
+  split_shape i <;> split_shape t <;> rcases w with _ | w <;> (try split_shape3 w) <;> shape_auto
 
 theorem C18_gap_mean_squared_error (i t : Shp) (w : Option Shp) :
     (Accepts_mean_squared_error i t w && !Valid_mean_squared_error i t w) = true ↔ (patterns_mean_squared_error.any fun p => p.2 i t w) = true := by
   unfold Valid_mean_squared_error Accepts_mean_squared_error patterns_mean_squared_error
-  split_shape i <;> split_shape t <;> rcases w with _ | w <;> (try split_shape3 w) <;> simp [Valid_tasks1, Valid_1d, Valid_multiclass, Valid_scores, Valid_multilabel, Valid_tasks, Valid_regression, Valid_text, patterns_tasks0, liftW, Accepts_tasks_strict, Valid_retrieval_precision, Accepts_multiclass, Accepts_tasks_nd, Accepts_tasks_2d, unsqueeze0, ndim, size, Res.ite_ok, weightOk, numel_eq_zero] <;> grind
+  split_shape i <;> split_shape t <;> rcases w with _ | w <;> (try split_shape3 w) <;> shape_auto
 
 example : Gen.check_mean_squared_error [3, 2] [3, 2] (some [3]) = .ok ∧ Valid_mean_squared_error [3, 2] [3, 2] (some [3]) = true := by decide
 
@@ -730,17 +731,17 @@ example : Gen.check_mean_squared_error [3, 2] [3, 2] (some [3]) = .ok ∧ Valid_
 theorem C18_accepts_r2_score (i t : Shp) :
     Gen.check_r2_score i t = .ok ↔ Accepts_r2_score i t = true := by
   unfold Gen.check_r2_score Accepts_r2_score
-  split_shape i <;> split_shape t <;> simp [Accepts_tasks_strict, Valid_retrieval_precision, Accepts_multiclass, Accepts_tasks_nd, Accepts_tasks_2d, unsqueeze0, ndim, size, Res.ite_ok, weightOk, numel_eq_zero] <;> grind
+  split_shape i <;> split_shape t <;> shape_auto
 
 theorem C18_complete_r2_score (i t : Shp) :
     Valid_r2_score i t = true → Accepts_r2_score i t = true := by
   unfold Valid_r2_score Accepts_r2_score
-  split_shape i <;> split_shape t <;> simp [Valid_tasks1, Valid_1d, Valid_multiclass, Valid_scores, Valid_multilabel, Valid_tasks, Valid_regression, Valid_text, patterns_tasks0, liftW, Accepts_tasks_strict, Valid_retrieval_precision, Accepts_multiclass, Accepts_tasks_nd, Accepts_tasks_2d, unsqueeze0, ndim, size, Res.ite_ok, weightOk, numel_eq_zero] <;> grind
+  split_shape i <;> split_shape t <;> shape_auto
 
 theorem C18_gap_r2_score (i t : Shp) :
     (Accepts_r2_score i t && !Valid_r2_score i t) = true ↔ (patterns_r2_score.any fun p => p.2 i t) = true := by
   unfold Valid_r2_score Accepts_r2_score patterns_r2_score
-  split_shape i <;> split_shape t <;> simp [Valid_tasks1, Valid_1d, Valid_multiclass, Valid_scores, Valid_multilabel, Valid_tasks, Valid_regression, Valid_text, patterns_tasks0, liftW, Accepts_tasks_strict, Valid_retrieval_precision, Accepts_multiclass, Accepts_tasks_nd, Accepts_tasks_2d, unsqueeze0, ndim, size, Res.ite_ok, weightOk, numel_eq_zero] <;> grind
+  split_shape i <;> split_shape t <;> shape_auto
 
 example : Gen.check_r2_score [3, 2] [3, 2] = .ok ∧ Valid_r2_score [3, 2] [3, 2] = true := by decide
 
@@ -749,18 +750,18 @@ example : Gen.check_r2_score [3, 2] [3, 2] = .ok ∧ Valid_r2_score [3, 2] [3, 2
 theorem C18_accepts_psnr (i t : Shp) :
     Gen.check_psnr i t = .ok ↔ Accepts_same i t = true := by
   unfold Gen.check_psnr Accepts_same
-  split_shape i <;> split_shape t <;> simp [Accepts_tasks_strict, Valid_retrieval_precision, Accepts_multiclass, Accepts_tasks_nd, Accepts_tasks_2d, unsqueeze0, ndim, size, Res.ite_ok, weightOk, numel_eq_zero] <;> grind
+  split_shape i <;> split_shape t <;> shape_auto
 
 theorem C18_complete_psnr (i t : Shp) :
     Valid_psnr i t = true → Accepts_same i t = true := by
   unfold Valid_psnr Accepts_same
-  split_shape i <;> split_shape t <;> simp [Valid_tasks1, Valid_1d, Valid_multiclass, Valid_scores, Valid_multilabel, Valid_tasks, Valid_regression, Valid_text, patterns_tasks0, liftW, Accepts_tasks_strict, Valid_retrieval_precision, Accepts_multiclass, Accepts_tasks_nd, Accepts_tasks_2d, unsqueeze0, ndim, size, Res.ite_ok, weightOk, numel_eq_zero] <;> grind
+  split_shape i <;> split_shape t <;> shape_auto
 
 /-- nothing undocumented is accepted -/
 theorem C18_gap_psnr (i t : Shp) :
     Accepts_same i t = true → Valid_psnr i t = true := by
   unfold Valid_psnr Accepts_same
-  split_shape i <;> split_shape t <;> simp [Valid_tasks1, Valid_1d, Valid_multiclass, Valid_scores, Valid_multilabel, Valid_tasks, Valid_regression, Valid_text, patterns_tasks0, liftW, Accepts_tasks_strict, Valid_retrieval_precision, Accepts_multiclass, Accepts_tasks_nd, Accepts_tasks_2d, unsqueeze0, ndim, size, Res.ite_ok, weightOk, numel_eq_zero] <;> grind
+  split_shape i <;> split_shape t <;> shape_auto
 
 example : Gen.check_psnr [2, 3, 4, 4] [2, 3, 4, 4] = .ok ∧ Valid_psnr [2, 3, 4, 4] [2, 3, 4, 4] = true := by decide
 
@@ -769,18 +770,18 @@ example : Gen.check_psnr [2, 3, 4, 4] [2, 3, 4, 4] = .ok ∧ Valid_psnr [2, 3, 4
 theorem C18_accepts_perplexity (i t : Shp) (ig : Option Int) :
     Gen.check_perplexity i t ig false = .ok ↔ Accepts_perplexity i t = true := by
   unfold Gen.check_perplexity Accepts_perplexity
-  split_shape i <;> split_shape t <;> simp [Accepts_tasks_strict, Valid_retrieval_precision, Accepts_multiclass, Accepts_tasks_nd, Accepts_tasks_2d, unsqueeze0, ndim, size, Res.ite_ok, weightOk, numel_eq_zero] <;> grind
+  split_shape i <;> split_shape t <;> shape_auto
 
 theorem C18_complete_perplexity (i t : Shp) (ig : Option Int) :
     Valid_perplexity i t = true → Accepts_perplexity i t = true := by
   unfold Valid_perplexity Accepts_perplexity
-  split_shape i <;> split_shape t <;> simp [Valid_tasks1, Valid_1d, Valid_multiclass, Valid_scores, Valid_multilabel, Valid_tasks, Valid_regression, Valid_text, patterns_tasks0, liftW, Accepts_tasks_strict, Valid_retrieval_precision, Accepts_multiclass, Accepts_tasks_nd, Accepts_tasks_2d, unsqueeze0, ndim, size, Res.ite_ok, weightOk, numel_eq_zero] <;> grind
+  split_shape i <;> split_shape t <;> shape_auto
 
 /-- nothing undocumented is accepted -/
 theorem C18_gap_perplexity (i t : Shp) (ig : Option Int) :
     Accepts_perplexity i t = true → Valid_perplexity i t = true := by
   unfold Valid_perplexity Accepts_perplexity
-  split_shape i <;> split_shape t <;> simp [Valid_tasks1, Valid_1d, Valid_multiclass, Valid_scores, Valid_multilabel, Valid_tasks, Valid_regression, Valid_text, patterns_tasks0, liftW, Accepts_tasks_strict, Valid_retrieval_precision, Accepts_multiclass, Accepts_tasks_nd, Accepts_tasks_2d, unsqueeze0, ndim, size, Res.ite_ok, weightOk, numel_eq_zero] <;> grind
+  split_shape i <;> split_shape t <;> shape_auto
 
 example : Gen.check_perplexity [2, 3, 5] [2, 3] none false = .ok ∧ Valid_perplexity [2, 3, 5] [2, 3] = true := by decide
 
@@ -789,18 +790,18 @@ example : Gen.check_perplexity [2, 3, 5] [2, 3] none false = .ok ∧ Valid_perpl
 theorem C18_accepts_frequency (i : Shp) :
     Gen.check_frequency i false = .ok ↔ Accepts_rank1 i = true := by
   unfold Gen.check_frequency Accepts_rank1
-  split_shape i <;> simp [Accepts_tasks_strict, Valid_retrieval_precision, Accepts_multiclass, Accepts_tasks_nd, Accepts_tasks_2d, unsqueeze0, ndim, size, Res.ite_ok, weightOk, numel_eq_zero] <;> grind
+  split_shape i <;> shape_auto
 
 theorem C18_complete_frequency (i : Shp) :
     Valid_frequency i = true → Accepts_rank1 i = true := by
   unfold Valid_frequency Accepts_rank1
-  split_shape i <;> simp [Valid_tasks1, Valid_1d, Valid_multiclass, Valid_scores, Valid_multilabel, Valid_tasks, Valid_regression, Valid_text, patterns_tasks0, liftW, Accepts_tasks_strict, Valid_retrieval_precision, Accepts_multiclass, Accepts_tasks_nd, Accepts_tasks_2d, unsqueeze0, ndim, size, Res.ite_ok, weightOk, numel_eq_zero] <;> grind
+  split_shape i <;> shape_auto
 
 /-- nothing undocumented is accepted -/
 theorem C18_gap_frequency (i : Shp) :
     Accepts_rank1 i = true → Valid_frequency i = true := by
   unfold Valid_frequency Accepts_rank1
-  split_shape i <;> simp [Valid_tasks1, Valid_1d, Valid_multiclass, Valid_scores, Valid_multilabel, Valid_tasks, Valid_regression, Valid_text, patterns_tasks0, liftW, Accepts_tasks_strict, Valid_retrieval_precision, Accepts_multiclass, Accepts_tasks_nd, Accepts_tasks_2d, unsqueeze0, ndim, size, Res.ite_ok, weightOk, numel_eq_zero] <;> grind
+  split_shape i <;> shape_auto
 
 example : Gen.check_frequency [3] false = .ok ∧ Valid_frequency [3] = true := by decide
 
@@ -809,18 +810,18 @@ example : Gen.check_frequency [3] false = .ok ∧ Valid_frequency [3] = true := 
 theorem C18_accepts_num_collisions (i : Shp) :
     Gen.check_num_collisions i false = .ok ↔ Accepts_rank1 i = true := by
   unfold Gen.check_num_collisions Accepts_rank1
-  split_shape i <;> simp [Accepts_tasks_strict, Valid_retrieval_precision, Accepts_multiclass, Accepts_tasks_nd, Accepts_tasks_2d, unsqueeze0, ndim, size, Res.ite_ok, weightOk, numel_eq_zero] <;> grind
+  split_shape i <;> shape_auto
 
 theorem C18_complete_num_collisions (i : Shp) :
     Valid_num_collisions i = true → Accepts_rank1 i = true := by
   unfold Valid_num_collisions Accepts_rank1
-  split_shape i <;> simp [Valid_tasks1, Valid_1d, Valid_multiclass, Valid_scores, Valid_multilabel, Valid_tasks, Valid_regression, Valid_text, patterns_tasks0, liftW, Accepts_tasks_strict, Valid_retrieval_precision, Accepts_multiclass, Accepts_tasks_nd, Accepts_tasks_2d, unsqueeze0, ndim, size, Res.ite_ok, weightOk, numel_eq_zero] <;> grind
+  split_shape i <;> shape_auto
 
 /-- nothing undocumented is accepted -/
 theorem C18_gap_num_collisions (i : Shp) :
     Accepts_rank1 i = true → Valid_num_collisions i = true := by
   unfold Valid_num_collisions Accepts_rank1
-  split_shape i <;> simp [Valid_tasks1, Valid_1d, Valid_multiclass, Valid_scores, Valid_multilabel, Valid_tasks, Valid_regression, Valid_text, patterns_tasks0, liftW, Accepts_tasks_strict, Valid_retrieval_precision, Accepts_multiclass, Accepts_tasks_nd, Accepts_tasks_2d, unsqueeze0, ndim, size, Res.ite_ok, weightOk, numel_eq_zero] <;> grind
+  split_shape i <;> shape_auto
 
 example : Gen.check_num_collisions [3] false = .ok ∧ Valid_num_collisions [3] = true := by decide
 
@@ -829,17 +830,18 @@ example : Gen.check_num_collisions [3] false = .ok ∧ Valid_num_collisions [3] 
 theorem C18_accepts_auc (x y : Shp) (T : Int) :
     Gen.check_auc x y T = .ok ↔ Accepts_auc x y T = true := by
   unfold Gen.check_auc Accepts_auc
-  split_shape x <;> split_shape y <;> simp [Accepts_tasks_strict, Valid_retrieval_precision, Accepts_multiclass, Accepts_tasks_nd, Accepts_tasks_2d, unsqueeze0, ndim, size, Res.ite_ok, weightOk, numel_eq_zero] <;> grind
+  split_shape x <;> split_shape y <;> shape_auto
 
 theorem C18_complete_auc (x y : Shp) (T : Int) :
     Valid_auc x y T = true → Accepts_auc x y T = true := by
   unfold Valid_auc Accepts_auc
-  split_shape x <;> split_shape y <;> simp [Valid_tasks1, Valid_1d, Valid_multiclass, Valid_scores, Valid_multilabel, Valid_tasks, Valid_regression, Valid_text, patterns_tasks0, liftW, Accepts_tasks_strict, Valid_retrieval_precision, Accepts_multiclass, Accepts_tasks_nd, Accepts_tasks_2d, unsqueeze0, ndim, size, Res.ite_ok, weightOk, numel_eq_zero] <;> grind
+  split_shape x <;> split_shape y <;> shape_auto
 
+/-- nothing undocumented is accepted -/
 theorem C18_gap_auc (x y : Shp) (T : Int) :
-    (Accepts_auc x y T && !Valid_auc x y T) = true ↔ (patterns_auc.any fun p => p.2 x y T) = true := by
-  unfold Valid_auc Accepts_auc patterns_auc
-  split_shape x <;> split_shape y <;> simp [Valid_tasks1, Valid_1d, Valid_multiclass, Valid_scores, Valid_multilabel, Valid_tasks, Valid_regression, Valid_text, patterns_tasks0, liftW, Accepts_tasks_strict, Valid_retrieval_precision, Accepts_multiclass, Accepts_tasks_nd, Accepts_tasks_2d, unsqueeze0, ndim, size, Res.ite_ok, weightOk, numel_eq_zero] <;> grind
+    Accepts_auc x y T = true → Valid_auc x y T = true := by
+  unfold Valid_auc Accepts_auc
+  split_shape x <;> split_shape y <;> shape_auto
 
 example : Gen.check_auc [2, 3] [2, 3] 2 = .ok ∧ Valid_auc [2, 3] [2, 3] 2 = true := by decide
 
@@ -848,17 +850,17 @@ example : Gen.check_auc [2, 3] [2, 3] 2 = .ok ∧ Valid_auc [2, 3] [2, 3] 2 = tr
 theorem C18_accepts_wasserstein (x y : Shp) (xw yw : Option Shp) :
     Gen.check_wasserstein x y xw yw false false false false false false false = .ok ↔ Accepts_wasserstein x y xw yw = true := by
   unfold Gen.check_wasserstein Accepts_wasserstein
-  split_shape3 x <;> split_shape3 y <;> cases xw <;> cases yw <;> simp [Accepts_tasks_strict, Valid_retrieval_precision, Accepts_multiclass, Accepts_tasks_nd, Accepts_tasks_2d, unsqueeze0, ndim, size, Res.ite_ok, weightOk, numel_eq_zero] <;> grind
+  split_shape3 x <;> split_shape3 y <;> cases xw <;> cases yw <;> shape_auto
 
 theorem C18_complete_wasserstein (x y : Shp) (xw yw : Option Shp) :
     Valid_wasserstein x y xw yw = true → Accepts_wasserstein x y xw yw = true := by
   unfold Valid_wasserstein Accepts_wasserstein
-  split_shape3 x <;> split_shape3 y <;> cases xw <;> cases yw <;> simp [Valid_tasks1, Valid_1d, Valid_multiclass, Valid_scores, Valid_multilabel, Valid_tasks, Valid_regression, Valid_text, patterns_tasks0, liftW, Accepts_tasks_strict, Valid_retrieval_precision, Accepts_multiclass, Accepts_tasks_nd, Accepts_tasks_2d, unsqueeze0, ndim, size, Res.ite_ok, weightOk, numel_eq_zero] <;> grind
+  split_shape3 x <;> split_shape3 y <;> cases xw <;> cases yw <;> shape_auto
 
 theorem C18_gap_wasserstein (x y : Shp) (xw yw : Option Shp) :
     (Accepts_wasserstein x y xw yw && !Valid_wasserstein x y xw yw) = true ↔ (patterns_wasserstein.any fun p => p.2 x y xw yw) = true := by
   unfold Valid_wasserstein Accepts_wasserstein patterns_wasserstein
-  split_shape3 x <;> split_shape3 y <;> cases xw <;> cases yw <;> simp [Valid_tasks1, Valid_1d, Valid_multiclass, Valid_scores, Valid_multilabel, Valid_tasks, Valid_regression, Valid_text, patterns_tasks0, liftW, Accepts_tasks_strict, Valid_retrieval_precision, Accepts_multiclass, Accepts_tasks_nd, Accepts_tasks_2d, unsqueeze0, ndim, size, Res.ite_ok, weightOk, numel_eq_zero] <;> grind
+  split_shape3 x <;> split_shape3 y <;> cases xw <;> cases yw <;> shape_auto
 
 example : Gen.check_wasserstein [3] [2] (some [3]) none false false false false false false false = .ok ∧ Valid_wasserstein [3] [2] (some [3]) none = true := by decide
 
@@ -867,18 +869,18 @@ example : Gen.check_wasserstein [3] [2] (some [3]) none false false false false 
 theorem C18_accepts_word_error_rate (a b : Option Nat) :
     Gen.check_word_error_rate a b = .ok ↔ Accepts_text a b = true := by
   unfold Gen.check_word_error_rate Accepts_text
-  cases a <;> cases b <;> simp [Accepts_tasks_strict, Valid_retrieval_precision, Accepts_multiclass, Accepts_tasks_nd, Accepts_tasks_2d, unsqueeze0, ndim, size, Res.ite_ok, weightOk, numel_eq_zero] <;> grind
+  cases a <;> cases b <;> shape_auto
 
 theorem C18_complete_word_error_rate (a b : Option Nat) :
     Valid_word_error_rate a b = true → Accepts_text a b = true := by
   unfold Valid_word_error_rate Accepts_text
-  cases a <;> cases b <;> simp [Valid_tasks1, Valid_1d, Valid_multiclass, Valid_scores, Valid_multilabel, Valid_tasks, Valid_regression, Valid_text, patterns_tasks0, liftW, Accepts_tasks_strict, Valid_retrieval_precision, Accepts_multiclass, Accepts_tasks_nd, Accepts_tasks_2d, unsqueeze0, ndim, size, Res.ite_ok, weightOk, numel_eq_zero] <;> grind
+  cases a <;> cases b <;> shape_auto
 
 /-- nothing undocumented is accepted -/
 theorem C18_gap_word_error_rate (a b : Option Nat) :
     Accepts_text a b = true → Valid_word_error_rate a b = true := by
   unfold Valid_word_error_rate Accepts_text
-  cases a <;> cases b <;> simp [Valid_tasks1, Valid_1d, Valid_multiclass, Valid_scores, Valid_multilabel, Valid_tasks, Valid_regression, Valid_text, patterns_tasks0, liftW, Accepts_tasks_strict, Valid_retrieval_precision, Accepts_multiclass, Accepts_tasks_nd, Accepts_tasks_2d, unsqueeze0, ndim, size, Res.ite_ok, weightOk, numel_eq_zero] <;> grind
+  cases a <;> cases b <;> shape_auto
 
 example : Gen.check_word_error_rate (some 2) (some 2) = .ok ∧ Valid_word_error_rate (some 2) (some 2) = true := by decide
 
@@ -887,18 +889,18 @@ example : Gen.check_word_error_rate (some 2) (some 2) = .ok ∧ Valid_word_error
 theorem C18_accepts_word_information_preserved (a b : Option Nat) :
     Gen.check_word_information_preserved a b = .ok ↔ Accepts_text a b = true := by
   unfold Gen.check_word_information_preserved Accepts_text
-  cases a <;> cases b <;> simp [Accepts_tasks_strict, Valid_retrieval_precision, Accepts_multiclass, Accepts_tasks_nd, Accepts_tasks_2d, unsqueeze0, ndim, size, Res.ite_ok, weightOk, numel_eq_zero] <;> grind
+  cases a <;> cases b <;> shape_auto
 
 theorem C18_complete_word_information_preserved (a b : Option Nat) :
     Valid_word_information_preserved a b = true → Accepts_text a b = true := by
   unfold Valid_word_information_preserved Accepts_text
-  cases a <;> cases b <;> simp [Valid_tasks1, Valid_1d, Valid_multiclass, Valid_scores, Valid_multilabel, Valid_tasks, Valid_regression, Valid_text, patterns_tasks0, liftW, Accepts_tasks_strict, Valid_retrieval_precision, Accepts_multiclass, Accepts_tasks_nd, Accepts_tasks_2d, unsqueeze0, ndim, size, Res.ite_ok, weightOk, numel_eq_zero] <;> grind
+  cases a <;> cases b <;> shape_auto
 
 /-- nothing undocumented is accepted -/
 theorem C18_gap_word_information_preserved (a b : Option Nat) :
     Accepts_text a b = true → Valid_word_information_preserved a b = true := by
   unfold Valid_word_information_preserved Accepts_text
-  cases a <;> cases b <;> simp [Valid_tasks1, Valid_1d, Valid_multiclass, Valid_scores, Valid_multilabel, Valid_tasks, Valid_regression, Valid_text, patterns_tasks0, liftW, Accepts_tasks_strict, Valid_retrieval_precision, Accepts_multiclass, Accepts_tasks_nd, Accepts_tasks_2d, unsqueeze0, ndim, size, Res.ite_ok, weightOk, numel_eq_zero] <;> grind
+  cases a <;> cases b <;> shape_auto
 
 example : Gen.check_word_information_preserved (some 2) (some 2) = .ok ∧ Valid_word_information_preserved (some 2) (some 2) = true := by decide
 
